@@ -46,6 +46,20 @@ CMP = {ast.Eq: 'Eq', ast.NotEq: 'NotEq', ast.Lt: 'Lt', ast.LtE: 'LtE', ast.Gt: '
 
 
 def expr(e):
+    if OBJ_METHODS and isinstance(e, ast.Constant) and isinstance(e.value, bytes):
+        return obj_methods_bytes(e.value)   # option 'obj_methods': see OBJ_METHODS
+    if OBJ_METHODS and isinstance(e, ast.Call):
+        r_ = obj_methods_module_call(e)     # option 'obj_methods': module.Class({..}) as a declared oracle
+        if r_ is not None:
+            return r_
+    if SEQ_OPS[0]:
+        r_ = seq_op(e)   # option 'seq_ops' of the target: `+`, `*`, len on strings / lists as well as numbers
+        if r_ is not None:
+            return r_
+    if IMPORTED:
+        r_ = imported_expr(e)               # option 'imports': constants of another module, see IMPORTED
+        if r_ is not None:
+            return r_
     if isinstance(e, ast.Constant):
         return '(EConst %s)' % const(e.value)
     if isinstance(e, ast.Name):
@@ -103,9 +117,22 @@ def expr(e):
     if isinstance(e, ast.Subscript) and isinstance(e.slice, ast.Constant) and isinstance(e.slice.value, int) \
             and e.slice.value >= 0:
         return '(EIndex %s %d)' % (expr(e.value), e.slice.value)
+    if isinstance(e, ast.Subscript) and isinstance(e.ctx, ast.Load) and isinstance(e.slice, ast.Constant) \
+            and type(e.slice.value) is int and e.slice.value < 0:
+        # a[<negative integer constant>]: PIndex with that constant (Py.v counts a negative index from the end).  The
+        # parser never produces this node for source text (`a[-1]` is a USub applied to 1 and is printed by the
+        # a[i] case below); it is built by hoist_pops()
+        return '(EPrim PIndex [%s; (EConst %s)])' % (expr(e.value), num(e.slice.value))
     if isinstance(e, ast.Subscript) and isinstance(e.ctx, ast.Load) and isinstance(e.slice, ast.Slice) \
             and e.slice.lower is None and e.slice.step is None and e.slice.upper is not None:
         return '(EPrim PSliceTo [%s; %s])' % (expr(e.value), expr(e.slice.upper))   # a[:n]
+    if isinstance(e, ast.Subscript) and isinstance(e.ctx, ast.Load) and isinstance(e.slice, ast.Slice) \
+            and e.slice.lower is None and e.slice.upper is None and isinstance(e.slice.step, ast.UnaryOp) \
+            and isinstance(e.slice.step.op, ast.USub) and isinstance(e.slice.step.operand, ast.Constant) \
+            and e.slice.step.operand.value == 1 and type(e.slice.step.operand.value) is int:
+        # a[::-1] on a list: a new list with the elements in reverse order (the primitive PReversed of Py.v; like the
+        # other sequence primitives it answers TypeError for an operand that is not a list)
+        return '(EPrim PReversed [%s])' % expr(e.value)
     if isinstance(e, ast.Subscript) and isinstance(e.ctx, ast.Load) \
             and not isinstance(e.slice, (ast.Slice, ast.Tuple, ast.Constant, ast.Starred)):
         return '(EPrim PIndex [%s; %s])' % (expr(e.value), expr(e.slice))   # a[i], i an expression
@@ -207,6 +234,13 @@ def expr(e):
         # resolved by name only: the theorems speak about str receivers.
         return '(ECall "%%startswith" [%s; %s])' % (expr(e.func.value), expr(e.args[0]))
     if isinstance(e, ast.Call) and isinstance(e.func, ast.Name) and e.func.id == 'tuple' and len(e.args) == 1 \
+            and not e.keywords and isinstance(e.args[0], ast.GeneratorExp):
+        # tuple(elt for x in it if c): the generator is consumed at once, from the left, so the value is the tuple of
+        # the elements of [elt for x in it if c] (tuples and lists are both VList in Py.v; both forms have their own
+        # scope for x and evaluate `it` first).  Refused when `tuple` may be rebound.
+        builtin_not_rebound('tuple')
+        return expr(ast.ListComp(elt=e.args[0].elt, generators=e.args[0].generators))
+    if isinstance(e, ast.Call) and isinstance(e.func, ast.Name) and e.func.id == 'tuple' and len(e.args) == 1 \
             and not e.keywords and isinstance(e.args[0], ast.Name):
         # tuple(x), x a local of the function whose every binding is the statement `x = [..]` (a list display; it may
         # then be appended to): the tuple of the elements of that list, the same value in Py.v (lists and tuples are
@@ -241,13 +275,392 @@ def expr(e):
         else:
             arg = expr(a)
         return '(EPrim PJoin [%s; %s])' % (expr(e.func.value), arg)
+    if isinstance(e, ast.Call) and isinstance(e.func, ast.Name) and e.func.id == 'bool' and len(e.args) == 1 \
+            and not e.keywords and not isinstance(e.args[0], ast.Starred):
+        # bool(x)  ==  not not x : both ask for the truth value of x once and answer True / False (an x whose truth
+        # value raises, raises in both).  translate_function checks that the module does not bind the name `bool`
+        NAMED_BUILTINS_SEEN.append('bool')
+        return '(ENot (ENot %s))' % expr(e.args[0])
+    if isinstance(e, ast.Dict) and e.keys and all(
+            isinstance(k, ast.Constant) and isinstance(k.value, str) for k in e.keys) \
+            and len({k.value for k in e.keys}) == len(e.keys) and all(
+            (isinstance(v, ast.Constant) and (v.value is None or isinstance(v.value, (str, bool, int))))
+            or (isinstance(v, ast.List) and not v.elts) for v in e.values):
+        # {'k1': c1, 'k2': c2}: a dict display with distinct string keys whose values are literal constants or the
+        # empty list display: a fresh dictionary, the constant VObj of Py.v (dictionaries with string keys are VObj,
+        # read by ESubscr and updated by x['k'] = e; objects are values, so "fresh" needs no representation)
+        return '(EConst (VObj [%s]))' % '; '.join(
+            '(%s, %s)' % (q(k.value), 'VList []' if isinstance(v, ast.List) else const(v.value))
+            for k, v in zip(e.keys, e.values))
+    if isinstance(e, ast.Call) and isinstance(e.func, ast.Name) and e.func.id == 'getattr' and len(e.args) == 3 \
+            and not e.keywords and not any(isinstance(a, ast.Starred) for a in e.args) \
+            and isinstance(e.args[1], ast.Constant) and isinstance(e.args[1].value, str) \
+            and e.args[1].value.isidentifier() and 'getattr' not in CALLABLE and 'getattr' not in EXTERNAL:
+        # getattr(x, 'name', default), the name a literal: the call of the builtin "%getattr" (not a Python name) with
+        # the object, the name and the default, evaluated in this order as in Python.  Its meaning is whatever [ocall]
+        # answers: the theorems state it (the entry of the object when it has one, else the default).  Refused when
+        # `getattr` may be rebound in the function or in the module.
+        builtin_not_rebound('getattr')
+        return '(ECall "%%getattr" [%s; %s; %s])' % (expr(e.args[0]), expr(e.args[1]), expr(e.args[2]))
+    if ISINSTANCE[0] and isinstance(e, ast.Call) and isinstance(e.func, ast.Name) and e.func.id == 'isinstance' \
+            and len(e.args) == 2 and not e.keywords and not any(isinstance(a, ast.Starred) for a in e.args):
+        # option 'isinstance' of the target: the class of an object is outside the value domain of Py.v, so
+        # `isinstance(x, C)` is the call of the builtin "%isinstance" (not a Python name) with x and C evaluated in
+        # this order, as in Python; C is an ordinary expression (a class read from a module object, a tuple of
+        # classes bound to a local).  Its meaning is whatever [ocall] answers: the theorems state it.
+        builtin_not_rebound('isinstance')
+        return '(ECall "%%isinstance" [%s; %s])' % (expr(e.args[0]), expr(e.args[1]))
     if isinstance(e, ast.Call):
         return call(e)
     raise Unsupported(ast.dump(e)[:200])
 
 
+# Target option 'imports' = {NAME: (source file of the defining module, kind)}: module-level constants of ANOTHER
+# module that the function reads under the name bound by `from .m import NAME` (filled by generate() for that target
+# only, after the checks of resolve_imported()).  NAME -> (kind, data):
+#   'const'      NAME = T(<literal>, ..), T a namedtuple class of that module: every read of NAME is the constant
+#                object with T's fields (objects are values in Py.v; nothing can mutate a namedtuple)
+#   'namedtuple' NAME = collections.namedtuple('NAME', [<field names>]): the call NAME(a, b) with exactly one
+#                positional argument per field is printed as the call of the builtin "%NAME" (not a Python name) whose
+#                meaning the theorems give: the object with these fields (listed in the Gen file as NAME_fields)
+#   'qtable'     NAME = {'key': <arithmetic over literals>, ..} (exact rationals as for the kind 'qtable'; duplicate
+#                keys refused; never modified anywhere in the package): two uses are printed,
+#                   x in NAME / x not in NAME  ==  x in ('key1', 'key2', ..)   (membership in a dict with str keys is
+#                       equality with one of the keys, for every hashable x; for an UNHASHABLE x - a list, a dict -
+#                       Python raises TypeError where the printed form answers False: the theorems are about str x)
+#                   NAME[x], x a plain name    ==  v1 if x == 'key1' else v2 if x == 'key2' else .. else %KeyError(x)
+#                       ("%KeyError" is not a Python name: a builtin that the theorems define as raising KeyError)
+#                   list(NAME.values())        ==  the list of the values in the order of the display (dicts keep
+#                       insertion order; duplicate keys are refused)
+#                any other use of NAME is refused.  The display may also be the comprehension
+#                {k: E for k, f in (('key1', <arith>), ..)} with E arithmetic over f, integer literals and E0['key'],
+#                E0 a table of kind 'entries' of the same option.
+#   'entries'    NAME = {'key': <value>, ..} (never modified anywhere in the package): the only use is NAME['key']
+#                with a constant key whose value in the display is arithmetic over literals: printed as that number
+# The source file of the defining module may be the module of the target itself: the name is then bound by its one
+# top-level assignment there (no import).
+IMPORTED = {}
+
+
+def imported_expr(e):
+    if isinstance(e, ast.Name) and e.id in IMPORTED:
+        kind, data = IMPORTED[e.id]
+        if kind == 'const' and isinstance(e.ctx, ast.Load):
+            return '(EConst %s)' % data
+        raise Unsupported('the imported %s %s is used other than as documented for the option imports' % (kind, e.id))
+    if isinstance(e, ast.Compare) and len(e.ops) == 1 and isinstance(e.ops[0], (ast.In, ast.NotIn)) \
+            and isinstance(e.comparators[0], ast.Name) and IMPORTED.get(e.comparators[0].id, ('', 0))[0] == 'qtable':
+        rows = IMPORTED[e.comparators[0].id][1]
+        return '(EIn %s %s (EConst (VList [%s])))' % (
+            'true' if isinstance(e.ops[0], ast.NotIn) else 'false', expr(e.left),
+            '; '.join('(VStr %s)' % q(k) for k, _ in rows))
+    if isinstance(e, ast.Call) and isinstance(e.func, ast.Name) and e.func.id == 'list' and len(e.args) == 1 \
+            and not e.keywords and isinstance(e.args[0], ast.Call) and not e.args[0].args and not e.args[0].keywords \
+            and isinstance(e.args[0].func, ast.Attribute) and e.args[0].func.attr == 'values' \
+            and isinstance(e.args[0].func.value, ast.Name) \
+            and IMPORTED.get(e.args[0].func.value.id, ('', 0))[0] == 'qtable':
+        builtin_not_rebound('list')
+        return '(EConst (VList [%s]))' % '; '.join(
+            '(VNum ((%d)#%d))' % (fr.numerator, fr.denominator) for _, fr in IMPORTED[e.args[0].func.value.id][1])
+    if isinstance(e, ast.Subscript) and isinstance(e.value, ast.Name) \
+            and IMPORTED.get(e.value.id, ('', 0))[0] == 'entries':
+        if not isinstance(e.ctx, ast.Load) or not isinstance(e.slice, ast.Constant) \
+                or e.slice.value not in IMPORTED[e.value.id][1]:
+            raise Unsupported('subscript of the table %s: not a read of a known constant key' % e.value.id)
+        fr = IMPORTED[e.value.id][1][e.slice.value]
+        return '(EConst (VNum ((%d)#%d)))' % (fr.numerator, fr.denominator)
+    if isinstance(e, ast.Subscript) and isinstance(e.value, ast.Name) \
+            and IMPORTED.get(e.value.id, ('', 0))[0] == 'qtable':
+        if not isinstance(e.ctx, ast.Load) or not isinstance(e.slice, ast.Name) or e.slice.id in IMPORTED:
+            raise Unsupported('subscript of the imported table %s: not a read with a plain name' % e.value.id)
+        x = expr(e.slice)
+        r = '(ECall "%%KeyError" [%s])' % x
+        for k, fr in reversed(IMPORTED[e.value.id][1]):
+            r = '(ECond (ECmp %s [(Eq, (EConst (VStr %s)))]) (EConst (VNum ((%d)#%d))) %s)' % (
+                x, q(k), fr.numerator, fr.denominator, r)
+        return r
+    if isinstance(e, ast.Call) and isinstance(e.func, ast.Name) \
+            and IMPORTED.get(e.func.id, ('', 0))[0] == 'namedtuple':
+        fields = IMPORTED[e.func.id][1]
+        if e.keywords or len(e.args) != len(fields) or any(isinstance(a, ast.Starred) for a in e.args):
+            raise Unsupported('call of the namedtuple %s: not one positional argument per field' % e.func.id)
+        return '(ECall %s [%s])' % (q('%' + e.func.id), '; '.join(expr(a) for a in e.args))
+    return None
+
+
+def single_binding(tree, name, imported_from=None):
+    """The only binding of `name` anywhere in the module `tree`.  imported_from=None: one plain top-level statement
+    `name = value` (returned); imported_from='m': one top-level `from .m import name` (no asname).  Refused: any other
+    store / del of the name, a def / class / parameter / import alias / except target / global declaration of it,
+    `import *`."""
+    stores = [n for n in ast.walk(tree) if isinstance(n, ast.Name) and n.id == name and not isinstance(n.ctx, ast.Load)]
+    aliases = [(n, a) for n in ast.walk(tree) if isinstance(n, (ast.Import, ast.ImportFrom)) for a in n.names
+               if (a.asname or a.name).split('.')[0] == name or a.name == '*']
+    for n in ast.walk(tree):
+        if isinstance(n, (ast.FunctionDef, ast.AsyncFunctionDef, ast.ClassDef)) and n.name == name:
+            raise Unsupported('%s is defined as a function / class' % name)
+        if isinstance(n, ast.arg) and n.arg == name:
+            raise Unsupported('%s is a parameter name in the module' % name)
+        if isinstance(n, ast.ExceptHandler) and n.name == name:
+            raise Unsupported('%s is bound by an except clause' % name)
+        if isinstance(n, (ast.Global, ast.Nonlocal)) and name in n.names:
+            raise Unsupported('%s is declared global / nonlocal' % name)
+    if imported_from is None:
+        defs = [s for s in tree.body if isinstance(s, ast.Assign) and len(s.targets) == 1
+                and isinstance(s.targets[0], ast.Name) and s.targets[0].id == name]
+        if len(defs) != 1 or len(stores) != 1 or aliases:
+            raise Unsupported('%s is not bound by exactly one top-level assignment of its module' % name)
+        return defs[0].value
+    ok = [(n, a) for n, a in aliases if isinstance(n, ast.ImportFrom) and n in tree.body and n.level == 1
+          and n.module == imported_from and a.name == name and a.asname is None]
+    if len(ok) != 1 or len(aliases) != 1 or stores:
+        raise Unsupported('%s is not bound only by `from .%s import %s`' % (name, imported_from, name))
+    return None
+
+
+def namedtuple_fields(tree, name):
+    """`name = collections.namedtuple('name', ['f1', 'f2'])` (the module imports collections and rebinds neither)"""
+    v = single_binding(tree, name)
+    if not (isinstance(v, ast.Call) and ast.unparse(v.func) == 'collections.namedtuple' and not v.keywords
+            and len(v.args) == 2 and isinstance(v.args[0], ast.Constant) and v.args[0].value == name
+            and isinstance(v.args[1], (ast.List, ast.Tuple)) and v.args[1].elts
+            and all(isinstance(x, ast.Constant) and isinstance(x.value, str) and x.value.isidentifier()
+                    for x in v.args[1].elts)):
+        raise Unsupported('%s is not collections.namedtuple(%r, [<field names>])' % (name, name))
+    imp = [n for n in tree.body if isinstance(n, ast.Import) and any(
+        a.name == 'collections' and a.asname is None for a in n.names)]
+    if len(imp) != 1 or any(isinstance(n, ast.Name) and n.id == 'collections' and not isinstance(n.ctx, ast.Load)
+                            for n in ast.walk(tree)):
+        raise Unsupported('collections is not the imported module')
+    fields = [x.value for x in v.args[1].elts]
+    if len(set(fields)) != len(fields):
+        raise Unsupported('duplicate field of %s' % name)
+    return fields
+
+
+def never_modified(repo, src, name, stored_keys=None):
+    """in every module of the package that mentions `name`, it (or an attribute .name of a module object) is neither
+    stored / deleted, nor subscripted as a target, nor the receiver of a method that changes a dict.  With stored_keys
+    (a set): an assignment NAME['k'] = .. with a constant key is not refused, its key is added to the set (the caller
+    forgets what the display says about that key)"""
+    top = os.path.join(repo, src.split('/')[0])
+    for d, _, files in sorted(os.walk(top)):
+        for f in sorted(files):
+            if not f.endswith('.py'):
+                continue
+            text = open(os.path.join(d, f)).read()
+            if name not in text:
+                continue
+            for n in ast.walk(ast.parse(text)):
+                def is_it(x):
+                    return (isinstance(x, ast.Name) and x.id == name) or \
+                        (isinstance(x, ast.Attribute) and x.attr == name)
+                if isinstance(n, ast.Attribute) and n.attr == name and not isinstance(n.ctx, ast.Load):
+                    raise Unsupported('table %s is rebound through a module object in %s' % (name, f))
+                if isinstance(n, ast.Subscript) and is_it(n.value) and isinstance(n.ctx, ast.Store) \
+                        and stored_keys is not None and isinstance(n.slice, ast.Constant):
+                    stored_keys.add(n.slice.value)
+                    continue
+                if isinstance(n, ast.Subscript) and is_it(n.value) and not isinstance(n.ctx, ast.Load):
+                    raise Unsupported('table %s is modified by a subscript assignment in %s' % (name, f))
+                if isinstance(n, ast.Attribute) and is_it(n.value) and n.attr in (
+                        'update', 'pop', 'popitem', 'clear', 'setdefault', '__setitem__', '__delitem__',
+                        '__ior__'):
+                    raise Unsupported('table %s: method %s is used in %s' % (name, n.attr, f))
+                if isinstance(n, ast.AugAssign) and is_it(n.target):
+                    raise Unsupported('table %s is the target of an augmented assignment in %s' % (name, f))
+
+
+def exact_arith(e, dsource, env, entries):
+    """exact_q extended with names bound to rationals (env) and reads E0['key'] of resolved 'entries' tables"""
+    if isinstance(e, ast.Name) and e.id in env:
+        return env[e.id]
+    if isinstance(e, ast.Subscript) and isinstance(e.value, ast.Name) and e.value.id in entries \
+            and isinstance(e.slice, ast.Constant) and e.slice.value in entries[e.value.id]:
+        return entries[e.value.id][e.slice.value]
+    if isinstance(e, ast.BinOp) and type(e.op) in BIN:
+        a, b = exact_arith(e.left, dsource, env, entries), exact_arith(e.right, dsource, env, entries)
+        if isinstance(e.op, ast.Div) and b == 0:
+            raise Unsupported('division by zero in table')
+        return a + b if isinstance(e.op, ast.Add) else a - b if isinstance(e.op, ast.Sub) else \
+            a * b if isinstance(e.op, ast.Mult) else a / b
+    return exact_q(e, dsource)
+
+
+def resolve_imported(repo, src, tree, spec):
+    """The table IMPORTED for the option 'imports' of a target of the module `src` (see IMPORTED): every check that
+    makes the printed constant the value the name has when the function runs."""
+    out, entries = {}, {}
+    for name, (defsrc, kind) in sorted(spec.items(), key=lambda kv: kv[1][1] == 'qtable'):
+        if defsrc == src:
+            dsource, dtree = open(os.path.join(repo, src)).read(), tree
+        else:
+            if os.path.dirname(defsrc) != os.path.dirname(src):
+                raise Unsupported('%s: only `from .m import` of a module of the same package is understood' % name)
+            single_binding(tree, name, os.path.basename(defsrc)[:-3])
+            dsource = open(os.path.join(repo, defsrc)).read()
+            dtree = ast.parse(dsource)
+        if kind == 'namedtuple':
+            out[name] = (kind, namedtuple_fields(dtree, name))
+        elif kind == 'const':
+            v = single_binding(dtree, name)
+            if not (isinstance(v, ast.Call) and isinstance(v.func, ast.Name) and not v.keywords
+                    and all(isinstance(a, ast.Constant) and not isinstance(a.value, (bytes, float, complex))
+                            and a.value is not Ellipsis for a in v.args)):
+                raise Unsupported('%s is not <namedtuple>(<literals>)' % name)
+            fields = namedtuple_fields(dtree, v.func.id)
+            if len(fields) != len(v.args):
+                raise Unsupported('%s: number of fields' % name)
+            out[name] = (kind, '(VObj [%s])' % '; '.join(
+                '(%s, %s)' % (q(f), const(a.value)) for f, a in zip(fields, v.args)))
+        elif kind == 'entries':
+            v = single_binding(dtree, name)
+            if not isinstance(v, ast.Dict):
+                raise Unsupported('table %s: not a dict display' % name)
+            keys = [k.value if isinstance(k, ast.Constant) else None for k in v.keys]
+            if None in keys or len(set(keys)) != len(keys):
+                raise Unsupported('table %s: a key that is not a constant, or a duplicate key' % name)
+            known = {}
+            for k, x in zip(keys, v.values):
+                try:
+                    known[k] = exact_q(x, dsource)
+                except Unsupported:
+                    pass          # an entry that is not a number: reading it is refused by imported_expr
+            stored = set()
+            never_modified(repo, src, name, stored)
+            known = {k: x for k, x in known.items() if k not in stored}
+            out[name] = (kind, known)
+            entries[name] = known
+        elif kind == 'qtable':
+            v = single_binding(dtree, name)
+            rows = []
+            if isinstance(v, ast.Dict):
+                pairs = [(k, exact_q(x, dsource)) for k, x in zip(v.keys, v.values)]
+            elif isinstance(v, ast.DictComp) and len(v.generators) == 1 and not v.generators[0].ifs \
+                    and not v.generators[0].is_async and isinstance(v.generators[0].target, ast.Tuple) \
+                    and len(v.generators[0].target.elts) == 2 \
+                    and all(isinstance(t, ast.Name) for t in v.generators[0].target.elts) \
+                    and v.generators[0].target.elts[0].id != v.generators[0].target.elts[1].id \
+                    and isinstance(v.key, ast.Name) and v.key.id == v.generators[0].target.elts[0].id \
+                    and isinstance(v.generators[0].iter, (ast.Tuple, ast.List)):
+                fvar = v.generators[0].target.elts[1].id
+                pairs = []
+                for it in v.generators[0].iter.elts:
+                    if not (isinstance(it, ast.Tuple) and len(it.elts) == 2):
+                        raise Unsupported('table %s: an item of the comprehension is not a pair' % name)
+                    pairs.append((it.elts[0], exact_arith(v.value, dsource, {fvar: exact_q(it.elts[1], dsource)},
+                                                          entries)))
+            else:
+                raise Unsupported('table %s: not a dict display / comprehension over a display of pairs' % name)
+            for k, fr in pairs:
+                if not (isinstance(k, ast.Constant) and isinstance(k.value, str)) or k.value in [r[0] for r in rows]:
+                    raise Unsupported('table %s: key %s' % (name, ast.dump(k)[:60] if k is not None else '**'))
+                rows.append((k.value, fr))
+            never_modified(repo, src, name)
+            out[name] = (kind, rows)
+        else:
+            raise Unsupported('imports: kind %s' % kind)
+    return out
+
+
 # the function being printed and its module (set by translate_function), for checks that need the context
 CURRENT = [None, None]
+# options 'seq_ops' / 'for_break' / 'unpack_gen' of the target being printed (set by translate_function; off for
+# every other target, whose printed form is unchanged)
+SEQ_OPS = [False]
+FOR_BREAK = [False]
+UNPACK_GEN = [False]
+
+
+def seq_op(e):
+    """Option 'seq_ops': in this target `a + b`, `a * b` and `len(a)` may have strings / lists as operands.  They are
+    printed as the primitives PSeqAdd / PSeqMul / PSeqLen of Py.v (operands evaluated from left to right, as Python
+    does), whose meaning [prim_apply] covers numbers (sum, product), two strings / two lists (concatenation), a
+    string / list and an integer in either order (repetition; none for n <= 0) and the length of a string or a list;
+    any other operands are the error value TypeError.  Nothing is decided here: the printer does not know the types."""
+    if isinstance(e, ast.BinOp) and isinstance(e.op, ast.Add):
+        return '(EPrim PSeqAdd [%s; %s])' % (expr(e.left), expr(e.right))
+    if isinstance(e, ast.BinOp) and isinstance(e.op, ast.Mult):
+        return '(EPrim PSeqMul [%s; %s])' % (expr(e.left), expr(e.right))
+    if isinstance(e, ast.Call) and isinstance(e.func, ast.Name) and e.func.id == 'len' and len(e.args) == 1 \
+            and not e.keywords and not isinstance(e.args[0], ast.Starred):
+        BUILTINS_SEEN.append('len')   # generate() checks that the name denotes the builtin
+        return '(EPrim PSeqLen [%s])' % expr(e.args[0])
+    return None
+
+
+def guard_breaks(stmts):
+    """See for_with_break: `break` becomes `%brk = True` (it must end its block), and the statements that follow an
+    `if` in which a break occurs are put under `if not %brk:`."""
+    out = []
+    for i, st in enumerate(stmts):
+        if isinstance(st, ast.Break):
+            if i != len(stmts) - 1:
+                raise Unsupported('statements after a break')
+            out.append(ast.Assign(targets=[ast.Name(id='%brk', ctx=ast.Store())], value=ast.Constant(value=True)))
+            return out
+        if isinstance(st, ast.If) and any(isinstance(m, ast.Break) for m in ast.walk(st)):
+            out.append(ast.If(test=st.test, body=guard_breaks(list(st.body)) or [ast.Pass()],
+                              orelse=guard_breaks(list(st.orelse))))
+            rest = guard_breaks(list(stmts[i + 1:]))
+            if rest:
+                out.append(ast.If(test=ast.UnaryOp(op=ast.Not(), operand=ast.Name(id='%brk', ctx=ast.Load())),
+                                  body=rest, orelse=[]))
+            return out
+        if any(isinstance(m, ast.Break) for m in ast.walk(st)):
+            raise Unsupported('break inside %s' % type(st).__name__)
+        out.append(st)
+    return out
+
+
+def for_with_break(s):
+    """Option 'for_break':  for T in it: BODY  [else: ELSE]   with `break` in BODY (through ifs only)   ==
+         %brk = False
+         for %item in it:
+             if not %brk:
+                 T = %item
+                 BODY'                    # `break` -> `%brk = True`; what follows an `if` holding one -> `if not %brk:`
+         if not %brk: ELSE                # only when there is an else clause
+    ("%brk", "%item" are not Python names).  Meaning-preserving for every input: once the flag is set nothing of the
+    loop is executed any more (no statement of BODY, no rebinding of T: the targets keep the values they had at the
+    break, as in Python), the remaining items of the list are only skipped, and the else clause runs exactly when the
+    loop ended without break.  SFor of Py.v does not consume "%flow", so a printed SBreak would be wrong there: this
+    rewriting needs nothing from the interpreter.  Refused: loops / functions / try / with inside BODY or ELSE (a
+    nested loop would need a second flag), a `continue` that fold_continue does not remove, statements after a
+    break, a target that is not a name or a tuple of distinct names."""
+    for n in ast.walk(ast.Module(body=list(s.body) + list(s.orelse), type_ignores=[])):
+        if isinstance(n, (ast.For, ast.While, ast.AsyncFor, ast.FunctionDef, ast.AsyncFunctionDef, ast.Lambda,
+                          ast.ClassDef, ast.Try, ast.With, ast.AsyncWith, ast.Yield, ast.YieldFrom, ast.Global,
+                          ast.Nonlocal, ast.NamedExpr)):
+            raise Unsupported('%s inside a for loop with break / else' % type(n).__name__)
+    if isinstance(s.target, ast.Name):
+        bind = '(SAssign [%s] (EVar "%%item"))' % target(s.target)
+    elif isinstance(s.target, ast.Tuple) and all(isinstance(t, ast.Name) for t in s.target.elts) \
+            and len({t.id for t in s.target.elts}) == len(s.target.elts):
+        bind = '(SUnpack [%s] (EVar "%%item"))' % '; '.join(target(t) for t in s.target.elts)
+    else:
+        raise Unsupported('target of a for loop with break / else')
+    body = guard_breaks(fold_continue(list(s.body)))
+    for b in body + list(s.orelse):
+        for m in ast.walk(b):
+            if isinstance(m, (ast.Break, ast.Continue)):
+                raise Unsupported('break / continue left in a for loop with break / else')
+    text = '(SAssign [(TVar "%%brk")] (EConst (VBool false))); ' \
+           '(SFor "%%item" %s [(SIf (ENot (EVar "%%brk")) [%s; %s] [])])' % (expr(s.iter), bind, block(body))
+    if s.orelse:
+        text += '; (SIf (ENot (EVar "%%brk")) [%s] [])' % block(list(s.orelse))
+    return text
+
+
+def chain_position(fn, var):
+    """index, in the body of fn, of the unique top-level statement `if var == '<string constant>': .. elif ..`"""
+    idx = [i for i, s in enumerate(fn.body) if isinstance(s, ast.If) and isinstance(s.test, ast.Compare)
+           and len(s.test.ops) == 1 and isinstance(s.test.ops[0], ast.Eq) and isinstance(s.test.left, ast.Name)
+           and s.test.left.id == var and isinstance(s.test.comparators[0], ast.Constant)
+           and isinstance(s.test.comparators[0].value, str)]
+    if len(idx) != 1:
+        raise Unsupported('%d if-chains on %s at the top level of %s' % (len(idx), var, fn.name))
+    return idx[0]
 
 
 def builtin_not_rebound(name):
@@ -376,6 +789,8 @@ EXTERNAL = {
                    {'dx': '(EConst (VNum (0#1)))', 'dy': '(EConst (VNum (0#1)))',
                     'ignore_floats': '(EConst (VBool false))'}),
     '.page_values': (['self'], {}),
+    # Box.copy_with_children(new_children): a copy of the box with these children (make_page: the root of a blank page)
+    '.copy_with_children': (['self', 'new_children'], {}),
     # layout/percent.py: sets the used widths, margins, paddings, border widths as attributes of `box`
     'resolve_percentages': (['box', 'containing_block'], {}),
     # OrientedBox.restore_box_attributes copies margin_a / margin_b / inner back to the real box
@@ -389,6 +804,13 @@ EXTERNAL = {
     'hasattr': (['obj', 'name'], {}),
     # image.get_intrinsic_size(image_resolution, font_size) of the replacement object (images.py): (width, height, ratio)
     '.get_intrinsic_size': (['self', 'image_resolution', 'font_size'], {}),
+    # Box.is_floated(): style['float'] in ('left', 'right') (boxes.py); no effect
+    '.is_floated': (['self'], {}),
+    # css/computed_values.py: character_ratio(style, 'x' | '0'), the ratio 1ex / font-size or 1ch / font-size measured
+    # by Pango on the element's font (a number; cached per font)
+    'character_ratio': (['style', 'character'], {}),
+    # Stream.get_marked_content_tag(element_tag) of pdf/stream.py: the structure tag (a str) of an HTML element name
+    '.get_marked_content_tag': (['self', 'element_tag'], {}),
 }
 # oracles declared by ONE target (option 'oracle_stmts': name -> (parameters, mutated parameters)), in force while that
 # target is printed (set by generate()): the statement `f(a, b)` is printed like the statements of EXTERNAL_STMT, as
@@ -471,14 +893,38 @@ def call_stmt(e):
     return '(SUnpack [%s] %s)' % ('; '.join(targets), text)
 
 
-def oracle_stmt(e):
+def oracle_stmt(e, result=None):
     """statement-level call `f(a, b)` of an oracle declared by the target being printed (see TARGET_ORACLE): positional
-    arguments only, exactly the declared parameters; the mutated ones must be plain names and are rebound"""
+    arguments only, exactly the declared parameters; the mutated ones must be plain names and are rebound.
+    result: the statement is `result = f(a, b)` (a plain name that is not one of the arguments): the returned value is
+    bound to it instead of "%call".  A declared parameter '*name' stands for the argument `*name` where name is the
+    vararg of the function being printed (option 'inner': never rebound there): the oracle receives the tuple of the
+    extra positional arguments as ONE value (it determines them), and answers its state after the call when the
+    parameter is declared mutated (the objects in the tuple may be mutated by the callee)."""
     name = e.func.id
     params, mutated = TARGET_ORACLE[name]
+    if any(p_.startswith('*') for p_ in params):
+        import copy
+        if VARARG[0] is None or e.keywords or len(e.args) != len(params):
+            raise Unsupported('arguments of the oracle statement %s' % name)
+        e = copy.copy(e)
+        e.args = list(e.args)
+        for i, p_ in enumerate(params):
+            starred = isinstance(e.args[i], ast.Starred)
+            if starred != p_.startswith('*'):
+                raise Unsupported('star argument of the oracle statement %s' % name)
+            if starred:
+                if p_ != '*' + VARARG[0] or not isinstance(e.args[i].value, ast.Name) \
+                        or e.args[i].value.id != VARARG[0]:
+                    raise Unsupported('star argument of the oracle statement %s is not the vararg of the function' % name)
+                e.args[i] = e.args[i].value
     if e.keywords or len(e.args) != len(params) or any(isinstance(a, ast.Starred) for a in e.args):
         raise Unsupported('arguments of the oracle statement %s' % name)
     targets = ['(TVar "%call")']
+    if result is not None:
+        if any(isinstance(a, ast.Name) and a.id == result for a in e.args):
+            raise Unsupported('the result of the oracle statement %s is bound to one of its arguments' % name)
+        targets = ['(TVar %s)' % q(result)]
     for p_, a in zip(params, e.args):
         if p_ in mutated:
             if not isinstance(a, ast.Name):
@@ -548,6 +994,9 @@ def class_properties(tree, clsname):
             raise Unsupported('decorators of %s.%s' % (clsname, m.name))
         d = m.decorator_list[0]
         a = m.args
+        if isinstance(d, ast.Name) and d.id == 'staticmethod' and not any(
+                isinstance(o, ast.FunctionDef) and o is not m and o.name == m.name for o in cls.body):
+            continue    # a static method under exactly @staticmethod whose name no other member bears: not a property
         if a.vararg or a.kwarg or a.kwonlyargs or a.posonlyargs or a.defaults:
             raise Unsupported('signature of %s.%s' % (clsname, m.name))
         if isinstance(d, ast.Name) and d.id == 'property':
@@ -606,11 +1055,158 @@ def property_assignment(s):
         q(tmp), expr(s.value), q(t.value.id), q(attr), expr(body))
 
 
+# Target option 'obj_methods' (set by translate_function for the target that asks for it; empty for every other
+# target): small methods that keep the bookkeeping of an object in list-valued attributes of `self` and emit through
+# the methods of a base class that is not in the repository (weasyprint/pdf/stream.py over pydyf.Stream).
+#   {'super': {method: [parameter names without self]},   the statements `super().method(a, b)` that may occur
+#    'module_calls': {'pydyf.Dictionary': 'dict'}}        calls `module.Class({'k': e, ..})` that may occur
+# With the option on:
+#  * `super().m(a, b)` as a statement is the oracle statement  %call, self = super.m(self, a, b)  (exactly the
+#    declared positional arguments): what the inherited method does to the object is whatever [ocall] answers for the
+#    name "super.m" - the list [returned value; state of self after the call] - and is stated by the theorems.  Checked:
+#    the statement lies in a method whose first parameter is `self`, and neither self nor super is rebound there.
+#  * `x.a.append(e)` as a statement, x a plain name, is  %recv = x.a; %recv.append(e); x.a = %recv  ("%recv" is not a
+#    Python name).  Python mutates the list object that x.a names; objects and lists are values in Py.v, so the same
+#    effect is the rebinding of the attribute, PROVIDED no second name of that list object can see the difference:
+#    check_attr_list_alias() refuses every read of x.a that could create one.  Order: x.a is read, then e is evaluated
+#    (expressions have no effect on the environment in Py.v), then the list is extended - as in Python.
+#  * `x.a.pop()` as a statement is  %recv = x.a; %call = %recv[-1]; x.a = %recv[:-1]  : on an empty list `%recv[-1]`
+#    raises IndexError as pop() does, otherwise the last element is dropped.  (A receiver that is not a list is an
+#    error in both: AttributeError in Python, TypeError here.)
+#  * a bytes literal b'q' (printable ASCII) is the constant VStr "b'q'", the text of its repr: Py.v has no bytes, and
+#    a str equal to that text would be confused with it - the theorems about these targets state which values the
+#    items of the lists are (none of them is such a str).
+#  * `module.Class({'k1': e1, ..})` for a declared dotted name, `module` bound by a module-level `import module` and
+#    never rebound, constant distinct string keys: the call of the oracle "module.Class" with the list of the pairs
+#    [key; value] in display order (the values evaluated from left to right, as in Python).
+OBJ_METHODS = {}
+
+
+def obj_methods_bytes(v):
+    text = repr(v)
+    if not all(32 <= c < 127 for c in v) or '"' in text or '\\' in text:
+        raise Unsupported('bytes literal %s' % text[:40])
+    return '(EConst (VStr %s))' % q(text)
+
+
+def obj_methods_module_call(e):
+    """`module.Class({..})`, see OBJ_METHODS; returns None when e is not such a call"""
+    if not (isinstance(e, ast.Call) and isinstance(e.func, ast.Attribute) and isinstance(e.func.value, ast.Name)):
+        return None
+    name = '%s.%s' % (e.func.value.id, e.func.attr)
+    if name not in OBJ_METHODS.get('module_calls', {}):
+        return None
+    fn, tree = CURRENT
+    mod = e.func.value.id
+    if tree is None or not any(isinstance(n, ast.Import) and any(a.name == mod and a.asname is None for a in n.names)
+                               for n in tree.body):
+        raise Unsupported('%s is not bound by a module-level `import %s`' % (mod, mod))
+    for n in ast.walk(tree):
+        if (isinstance(n, ast.Name) and n.id == mod and not isinstance(n.ctx, ast.Load)) \
+                or (isinstance(n, ast.arg) and n.arg == mod) \
+                or (isinstance(n, (ast.FunctionDef, ast.AsyncFunctionDef, ast.ClassDef)) and n.name == mod) \
+                or (isinstance(n, (ast.Global, ast.Nonlocal)) and mod in n.names) \
+                or (isinstance(n, ast.ImportFrom) and any((a.asname or a.name) == mod or a.name == '*' for a in n.names)) \
+                or (isinstance(n, ast.ExceptHandler) and n.name == mod):
+            raise Unsupported('the module name %s may be rebound' % mod)
+    if e.keywords or len(e.args) != 1 or not isinstance(e.args[0], ast.Dict):
+        raise Unsupported('arguments of %s' % name)
+    d = e.args[0]
+    keys = [k.value if isinstance(k, ast.Constant) and isinstance(k.value, str) else None for k in d.keys]
+    if None in keys or len(set(keys)) != len(keys):
+        raise Unsupported('keys of the display given to %s' % name)
+    pairs = '; '.join('(ETuple [(EConst (VStr %s)); %s])' % (q(k), expr(v)) for k, v in zip(keys, d.values))
+    return '(ECall %s [(ETuple [%s])])' % (q(name), pairs)
+
+
+def check_attr_list_alias(fn, x, a):
+    """every read of x.a in fn is one that cannot give the list object a second name: the receiver of .append / .pop
+    statements, a subscripted x.a[..] that is read, the argument of len, or an operand of a truth test (the test of an
+    if / assert, an operand of and / or / not); x is a parameter of fn that is never rebound; no nested function"""
+    safe = set()
+    for n in ast.walk(fn):
+        if isinstance(n, (ast.FunctionDef, ast.AsyncFunctionDef, ast.Lambda, ast.Global, ast.Nonlocal, ast.Delete)) \
+                and n is not fn:
+            raise Unsupported('%s inside %s, which mutates the list %s.%s' % (type(n).__name__, fn.name, x, a))
+        if isinstance(n, ast.Name) and n.id == x and not isinstance(n.ctx, ast.Load):
+            raise Unsupported('%s, whose list attribute %s is mutated, is rebound' % (x, a))
+        if isinstance(n, ast.Expr) and isinstance(n.value, ast.Call) and isinstance(n.value.func, ast.Attribute) \
+                and n.value.func.attr in ('append', 'pop'):
+            safe.add(id(n.value.func.value))
+        if isinstance(n, ast.Subscript) and isinstance(n.ctx, ast.Load):
+            safe.add(id(n.value))
+        if isinstance(n, ast.Call) and isinstance(n.func, ast.Name) and n.func.id == 'len' and len(n.args) == 1:
+            safe.add(id(n.args[0]))
+        if isinstance(n, (ast.If, ast.Assert)):
+            safe.add(id(n.test))
+        if isinstance(n, ast.BoolOp):
+            safe.update(id(v) for v in n.values)
+        if isinstance(n, ast.UnaryOp) and isinstance(n.op, ast.Not):
+            safe.add(id(n.operand))
+    if x not in [p.arg for p in fn.args.args]:
+        raise Unsupported('%s, whose list attribute %s is mutated, is not a parameter of %s' % (x, a, fn.name))
+    for n in ast.walk(fn):
+        if isinstance(n, ast.Attribute) and n.attr == a and isinstance(n.value, ast.Name) and n.value.id == x \
+                and id(n) not in safe:
+            raise Unsupported('the list %s.%s is mutated and read at line %d in a way that may alias it' % (x, a, n.lineno))
+
+
+def obj_methods_stmt(s):
+    """the statement forms of the option 'obj_methods' (see OBJ_METHODS); returns None when s is none of them"""
+    if not (isinstance(s, ast.Expr) and isinstance(s.value, ast.Call) and isinstance(s.value.func, ast.Attribute)):
+        return None
+    c, f = s.value, s.value.func
+    fn, tree = CURRENT
+    if isinstance(f.value, ast.Call) and isinstance(f.value.func, ast.Name) and f.value.func.id == 'super':
+        if f.value.args or f.value.keywords:
+            raise Unsupported('super() with arguments')
+        if f.attr not in OBJ_METHODS.get('super', {}):
+            raise Unsupported('super().%s is not a declared method of the base class' % f.attr)
+        params = OBJ_METHODS['super'][f.attr]
+        if c.keywords or len(c.args) != len(params) or any(isinstance(a, ast.Starred) for a in c.args):
+            raise Unsupported('arguments of super().%s' % f.attr)
+        if fn is None or tree is None or not fn.args.args or fn.args.args[0].arg != 'self' or fn.decorator_list:
+            raise Unsupported('super() outside a plain method whose first parameter is self')
+        for n in ast.walk(fn):
+            if isinstance(n, ast.Name) and n.id in ('self', 'super', '__class__') and not isinstance(n.ctx, ast.Load):
+                raise Unsupported('%s is rebound in %s' % (n.id, fn.name))
+            if isinstance(n, ast.arg) and n.arg in ('super', '__class__'):
+                raise Unsupported('%s is a parameter of %s' % (n.arg, fn.name))
+            if isinstance(n, (ast.FunctionDef, ast.AsyncFunctionDef, ast.Lambda, ast.Global, ast.Nonlocal, ast.Delete)) \
+                    and n is not fn:
+                raise Unsupported('%s inside %s, which calls super()' % (type(n).__name__, fn.name))
+        check_named_builtin(tree, 'super')
+        return '(SUnpack [(TVar "%%call"); (TVar "self")] (ECall %s [%s]))' % (
+            q('super.' + f.attr), '; '.join(['(EVar "self")'] + [expr(a) for a in c.args]))
+    if isinstance(f.value, ast.Attribute) and isinstance(f.value.value, ast.Name) and f.attr in ('append', 'pop') \
+            and f.value.attr not in PROP_GET:
+        x, a = f.value.value.id, f.value.attr
+        if fn is None:
+            raise Unsupported('%s.%s.%s outside a function' % (x, a, f.attr))
+        check_attr_list_alias(fn, x, a)
+        recv = '(SAssign [(TVar "%%recv")] (EAttr (EVar %s) %s))' % (q(x), q(a))
+        if f.attr == 'append':
+            if c.keywords or len(c.args) != 1 or isinstance(c.args[0], ast.Starred):
+                raise Unsupported('arguments of %s.%s.append' % (x, a))
+            return '%s; (SAppend "%%recv" %s); (SAssign [(TAttr %s %s)] (EVar "%%recv"))' % (
+                recv, expr(c.args[0]), q(x), q(a))
+        if c.keywords or c.args:
+            raise Unsupported('arguments of %s.%s.pop' % (x, a))
+        m1 = '(EConst (VNum ((-1)#1)))'
+        return ('%s; (SAssign [(TVar "%%call")] (EPrim PIndex [(EVar "%%recv"); %s])); '
+                '(SAssign [(TAttr %s %s)] (EPrim PSliceTo [(EVar "%%recv"); %s]))' % (recv, m1, q(x), q(a), m1))
+    return None
+
+
 def stmt(s):
     if isinstance(s, ast.Expr) and isinstance(s.value, ast.Constant):
         return 'SPass'  # docstring
     if isinstance(s, ast.Pass):
         return 'SPass'
+    if OBJ_METHODS:
+        r_ = obj_methods_stmt(s)
+        if r_ is not None:
+            return r_
     if isinstance(s, ast.Assert) and s.msg is None:
         return '(SAssert %s)' % expr(s.test)
     if isinstance(s, ast.Assert) and isinstance(s.msg, ast.Name) and any(
@@ -625,6 +1221,19 @@ def stmt(s):
     if isinstance(s, ast.Expr) and isinstance(s.value, ast.Call) and isinstance(s.value.func, ast.Name) \
             and s.value.func.id in TARGET_ORACLE:
         return oracle_stmt(s.value)
+    if isinstance(s, ast.Assign) and len(s.targets) == 1 and isinstance(s.targets[0], ast.Name) \
+            and isinstance(s.value, ast.Call) and isinstance(s.value.func, ast.Name) \
+            and s.value.func.id in TARGET_ORACLE:
+        # x = f(a, b), f a declared oracle of this target: x, m1, .. = f(a, b) (see oracle_stmt)
+        return oracle_stmt(s.value, s.targets[0].id)
+    if UNPACK_GEN[0] and isinstance(s, ast.Assign) and len(s.targets) == 1 and isinstance(s.targets[0], ast.Tuple) \
+            and isinstance(s.value, ast.GeneratorExp):
+        # option 'unpack_gen':  a, b = (elt for x in it)  ==  a, b = [elt for x in it] : the unpacking consumes the
+        # generator at once.  Same bindings whenever Python binds; when the number of items is wrong both raise
+        # (Python stops at the first surplus item with ValueError, the list form evaluates the later items first: an
+        # error raised by one of THOSE is reported instead of the ValueError)
+        return '(SUnpack [%s] %s)' % ('; '.join(target(t) for t in s.targets[0].elts),
+                                      expr(ast.ListComp(elt=s.value.elt, generators=s.value.generators)))
     if isinstance(s, ast.Assign) and len(s.targets) == 1 and isinstance(s.targets[0], ast.Tuple):
         return '(SUnpack [%s] %s)' % ('; '.join(target(t) for t in s.targets[0].elts), expr(s.value))
     if isinstance(s, ast.Assign) and len(s.targets) == 1 and isinstance(s.targets[0], ast.Attribute) \
@@ -652,6 +1261,9 @@ def stmt(s):
         return '(SIf %s [%s] [%s])' % (expr(s.test), block(s.body), block(s.orelse))
     if isinstance(s, ast.Return):
         return '(SReturn %s)' % (expr(s.value) if s.value is not None else '(EConst VNone)')
+    if FOR_BREAK[0] and isinstance(s, ast.For) and (s.orelse or any(
+            isinstance(m, ast.Break) for b in s.body for m in ast.walk(b))):
+        return for_with_break(s)
     if isinstance(s, ast.For) and isinstance(s.target, ast.Name) and not s.orelse:
         body = fold_continue(list(s.body))
         if any(isinstance(m, (ast.Break, ast.Continue)) for b in body for m in ast.walk(b)):
@@ -675,6 +1287,38 @@ def stmt(s):
             and s.value.func.attr == 'append' and isinstance(s.value.func.value, ast.Name) \
             and len(s.value.args) == 1 and not s.value.keywords:
         return '(SAppend %s %s)' % (q(s.value.func.value.id), expr(s.value.args[0]))
+    if isinstance(s, ast.Expr) and isinstance(s.value, ast.Call) and isinstance(s.value.func, ast.Attribute) \
+            and s.value.func.attr == 'append' and isinstance(s.value.func.value, ast.Attribute) \
+            and isinstance(s.value.func.value.value, ast.Name) and len(s.value.args) == 1 and not s.value.keywords \
+            and not isinstance(s.value.args[0], ast.Starred):
+        # x.f.append(e)  ==  x.f = x.f + [e]   where x.f is a list created by this function (`x.f = []`) that has no
+        # other name (fresh_list_attr checks it): x.f is read, then e is evaluated, then the list grows by e; nobody
+        # else can see that the attribute is rebound to a new list instead of the old one being mutated
+        x, f = s.value.func.value.value.id, s.value.func.value.attr
+        fresh_list_attr(x, f)
+        return '(SAssign [(TAttr %s %s)] (EBin Add (EAttr (EVar %s) %s) (ETuple [%s])))' % (
+            q(x), q(f), q(x), q(f), expr(s.value.args[0]))
+    if isinstance(s, ast.Expr) and isinstance(s.value, ast.Call) and isinstance(s.value.func, ast.Attribute) \
+            and s.value.func.attr == 'sort' and isinstance(s.value.func.value, ast.Attribute) \
+            and isinstance(s.value.func.value.value, ast.Name) and not s.value.args:
+        # x.f.sort(key=lambda v: v.a)  ==  x.f = sorted(x.f, key=lambda v: v.a)  for a list x.f without another name
+        # (fresh_list_attr), printed with the primitive PSortedByAttr of Py.v [x.f; 'a'] (the stable sort by the
+        # numeric attribute a).  Only this form of key is understood; `reverse=` or no key are refused.
+        x, f = s.value.func.value.value.id, s.value.func.value.attr
+        kw = s.value.keywords
+        if len(kw) != 1 or kw[0].arg != 'key' or not isinstance(kw[0].value, ast.Lambda):
+            raise Unsupported('sort with other than key=lambda')
+        lam = kw[0].value
+        la = lam.args
+        if la.vararg or la.kwarg or la.kwonlyargs or la.posonlyargs or la.defaults or len(la.args) != 1 \
+                or not (isinstance(lam.body, ast.Attribute) and isinstance(lam.body.value, ast.Name)
+                        and lam.body.value.id == la.args[0].arg and isinstance(lam.body.ctx, ast.Load)):
+            raise Unsupported('sort key is not `lambda v: v.attr`')
+        if lam.body.attr in PROP_GET:
+            raise Unsupported('sort key reads the property %s' % lam.body.attr)
+        fresh_list_attr(x, f)
+        return '(SAssign [(TAttr %s %s)] (EPrim PSortedByAttr [(EAttr (EVar %s) %s); (EConst (VStr %s))]))' % (
+            q(x), q(f), q(x), q(f), q(lam.body.attr))
     if isinstance(s, ast.Expr) and isinstance(s.value, ast.Call):
         # f(...) / x.m(...) for its effect: only for the oracles of EXTERNAL (the effect is outside the model; the call
         # and its arguments stay visible: the result is bound to "%call", which is not a Python name)
@@ -700,6 +1344,71 @@ def stmt(s):
     raise Unsupported(ast.dump(s)[:200])
 
 
+def fresh_list_attr(x, f):
+    """`x.f` holds, whenever the function being printed reads it, a list object that this function created and that
+    has no other name: so mutating it in place (append / sort) and rebinding the attribute to the new list value
+    (what the value domain of Py.v does) cannot be told apart.  Checked on the whole function:
+    x is a parameter that is never rebound / deleted and only ever used as `x.<attr>` (the object is not handed to
+    anything); exactly one statement stores x.f: the plain `x.f = []` at the top level of the function; every read of
+    x.f is the receiver of a statement `x.f.append(..)` / `x.f.sort(..)` in a later top-level statement; no nested
+    function, no lambda that mentions x; the class of the method is a plain class (no bases, decorators, metaclass,
+    no __setattr__ / __getattr__ / __getattribute__ / __slots__, f not a member of the class)."""
+    fn, tree = CURRENT
+    if fn is None or tree is None:
+        raise Unsupported('%s.%s mutated where the function is not known' % (x, f))
+    if x not in [a.arg for a in fn.args.args]:
+        raise Unsupported('%s (in %s.%s) is not a parameter' % (x, x, f))
+    owner = [c for c in ast.walk(tree) if isinstance(c, ast.ClassDef) and any(m is fn for m in c.body)]
+    if len(owner) != 1 or fn.args.args[0].arg != x or fn.decorator_list:
+        raise Unsupported('%s is not the self of a plain method' % x)
+    cls = owner[0]
+    if cls.bases or cls.keywords or cls.decorator_list:
+        raise Unsupported('class %s has bases / a metaclass / decorators' % cls.name)
+    for m in cls.body:
+        names = [m.name] if isinstance(m, (ast.FunctionDef, ast.AsyncFunctionDef, ast.ClassDef)) else \
+            [n.id for n in ast.walk(m) if isinstance(n, ast.Name) and not isinstance(n.ctx, ast.Load)]
+        for nm in names:
+            if nm in ('__setattr__', '__getattr__', '__getattribute__', '__slots__', f):
+                raise Unsupported('class %s defines %s' % (cls.name, nm))
+    receivers, parents = set(), set()
+    top_of = {}
+    for i, st in enumerate(fn.body):
+        for n in ast.walk(st):
+            top_of[id(n)] = i
+            if isinstance(n, (ast.FunctionDef, ast.AsyncFunctionDef, ast.ClassDef, ast.Delete, ast.Global,
+                              ast.Nonlocal, ast.NamedExpr, ast.Yield, ast.YieldFrom, ast.Await)):
+                raise Unsupported('%s inside %s, which mutates %s.%s' % (type(n).__name__, fn.name, x, f))
+            if isinstance(n, ast.Lambda) and any(isinstance(y, ast.Name) and y.id == x for y in ast.walk(n)):
+                raise Unsupported('a lambda of %s mentions %s' % (fn.name, x))
+            if isinstance(n, ast.Attribute) and isinstance(n.value, ast.Name) and n.value.id == x:
+                parents.add(id(n.value))
+            if isinstance(n, ast.Expr) and isinstance(n.value, ast.Call) and isinstance(n.value.func, ast.Attribute) \
+                    and n.value.func.attr in ('append', 'sort'):
+                receivers.add(id(n.value.func.value))
+    stores = []
+    for st in fn.body:
+        for n in ast.walk(st):
+            if isinstance(n, ast.Name) and n.id == x and (not isinstance(n.ctx, ast.Load) or id(n) not in parents):
+                raise Unsupported('%s is rebound or used other than as `%s.<attr>`' % (x, x))
+            if isinstance(n, ast.arg) and n.arg == x:
+                raise Unsupported('%s is rebound by a lambda' % x)
+            if isinstance(n, ast.Attribute) and isinstance(n.value, ast.Name) and n.value.id == x and n.attr == f:
+                if isinstance(n.ctx, ast.Load):
+                    if id(n) not in receivers:
+                        raise Unsupported('%s.%s is read other than as the receiver of append / sort' % (x, f))
+                else:
+                    stores.append(n)
+    ok = [i for i, st in enumerate(fn.body) if isinstance(st, ast.Assign) and len(st.targets) == 1
+          and st.targets[0] in stores and isinstance(st.value, ast.List) and not st.value.elts]
+    if len(stores) != 1 or len(ok) != 1:
+        raise Unsupported('%s.%s is not bound exactly once, by `%s.%s = []` at the top level' % (x, f, x, f))
+    for st in fn.body:
+        for n in ast.walk(st):
+            if isinstance(n, ast.Attribute) and isinstance(n.value, ast.Name) and n.value.id == x and n.attr == f \
+                    and isinstance(n.ctx, ast.Load) and top_of[id(n)] <= ok[0]:
+                raise Unsupported('%s.%s is used before `%s.%s = []`' % (x, f, x, f))
+
+
 def block(stmts):
     if OPAQUE[0]:
         return '; '.join(stmt_or_unsupported(s) for s in stmts)
@@ -718,6 +1427,8 @@ def block(stmts):
 OPAQUE = [False]
 # option 'str_index' of the target being printed (see expr(): constant subscripts are calls of "%getitem")
 STR_INDEX = [False]
+# option 'isinstance' of the target being printed (see expr(): isinstance(x, C) is a call of "%isinstance")
+ISINSTANCE = [False]
 
 
 def stmt_or_unsupported(s):
@@ -1021,6 +1732,441 @@ def select_branch(fn, var, value):
     return list(body)
 
 
+def slice_span(fn, first, last, opts, params):
+    """slice_from = ('<span>', first, last, opts): the top-level statements of fn from the statement that binds `first`
+    (the first top-level statement, of any kind, inside which the name is a target; written '=name': the first plain
+    top-level assignment `name = ...`) through the first top-level statement, at or after it, inside which `last` is a
+    target (`last` None: through the end of the function).  The statements before and after are not translated; what
+    ties the slice to them is checked here (fail-closed), with opts =
+      'keep':   names bound inside the slice that are bound NOWHERE else in the function (not parameters, no global /
+                nonlocal / del / nested function binding them): what the rest of the function reads under these names
+                are the values the slice computed;
+      'then':   source texts of expressions or whole statements (compared after ast.unparse) that must occur in the
+                top-level statements after the slice: the consumers of these values;
+      'before': source texts of top-level statements that must occur before the slice; every free variable of the
+                slice (`params`) is either bound before the slice only by statements of this list (the last one
+                wins), or is a parameter of fn that nothing binds before the slice.
+    The slice contains no loop, nested function, lambda, global / nonlocal, del, walrus, yield."""
+    body = list(fn.body)
+    # the targets of comprehensions / generator expressions live in a scope of their own (Python 3): not bindings of
+    # the function's locals
+    comp = set()
+    for c in ast.walk(fn):
+        if isinstance(c, ast.comprehension):
+            comp.update(id(x) for x in ast.walk(c.target))
+
+    def stores(s, nm):
+        return any(isinstance(x, ast.Name) and x.id == nm and not isinstance(x.ctx, ast.Load) and id(x) not in comp
+                   for x in ast.walk(s))
+
+    def plain(s, nm):
+        return isinstance(s, ast.Assign) and len(s.targets) == 1 and isinstance(s.targets[0], ast.Name) \
+            and s.targets[0].id == nm
+    if first.startswith('='):
+        starts = [k for k, s in enumerate(body) if plain(s, first[1:])]
+    else:
+        starts = [k for k, s in enumerate(body) if stores(s, first)]
+    if not starts:
+        raise Unsupported('no top-level statement of %s binds %s' % (fn.name, first))
+    i = starts[0]
+    if last is None:
+        j = len(body) - 1
+    else:
+        ends = [k for k, s in enumerate(body) if k >= i and stores(s, last)]
+        if not ends:
+            raise Unsupported('no statement of %s binds %s after the one that binds %s' % (fn.name, last, first))
+        j = ends[0]
+    sl = body[i:j + 1]
+    inside = set()
+    for s in sl:
+        for n in ast.walk(s):
+            inside.add(id(n))
+            if isinstance(n, (ast.For, ast.While, ast.FunctionDef, ast.AsyncFunctionDef, ast.Lambda, ast.Global,
+                              ast.Nonlocal, ast.Delete, ast.NamedExpr, ast.Yield, ast.YieldFrom, ast.Await,
+                              ast.ClassDef, ast.Try, ast.With)):
+                raise Unsupported('%s inside the slice %s..%s of %s' % (type(n).__name__, first, last, fn.name))
+    bound = set(n.id for s in sl for n in ast.walk(s) if isinstance(n, ast.Name) and not isinstance(n.ctx, ast.Load))
+    keep = list(opts.get('keep', []))
+    for nm in keep:
+        if nm not in bound:
+            raise Unsupported('%s is not bound by the slice %s..%s of %s' % (nm, first, last, fn.name))
+    for n in ast.walk(fn):
+        if id(n) in inside:
+            continue
+        if isinstance(n, ast.Name) and n.id in keep and not isinstance(n.ctx, ast.Load) and id(n) not in comp:
+            raise Unsupported('%s, bound by the slice %s..%s, is bound again in %s' % (n.id, first, last, fn.name))
+        if isinstance(n, (ast.Global, ast.Nonlocal)) and set(n.names) & set(keep):
+            raise Unsupported('global / nonlocal declaration of a name of the slice %s..%s' % (first, last))
+        if isinstance(n, ast.arg) and n.arg in keep:
+            raise Unsupported('%s, bound by the slice %s..%s, is a parameter' % (n.arg, first, last))
+        if isinstance(n, ast.ExceptHandler) and n.name in keep:
+            raise Unsupported('%s, bound by the slice %s..%s, is bound by an except clause' % (n.name, first, last))
+        if isinstance(n, ast.alias) and (n.asname or n.name).split('.')[0] in keep:
+            raise Unsupported('%s, bound by the slice %s..%s, is bound by an import' % (n.name, first, last))
+    after = set()
+    for st in body[j + 1:]:
+        after.add(ast.unparse(st))
+        for n in ast.walk(st):
+            if isinstance(n, ast.expr):
+                after.add(ast.unparse(n))
+    for text in opts.get('then', []):
+        mod = ast.parse(text)
+        norm = ast.unparse(mod.body[0].value if isinstance(mod.body[0], ast.Expr) else mod.body[0])
+        if norm not in after:
+            raise Unsupported('%s does not contain `%s` after the slice %s..%s' % (fn.name, text, first, last))
+    if 'before' in opts:
+        texts = [ast.unparse(ast.parse(t).body[0]) for t in opts['before']]
+        found = {}
+        for k, st in enumerate(body[:i]):
+            if ast.unparse(st) in texts:
+                if ast.unparse(st) in found:
+                    raise Unsupported('the statement `%s` occurs twice before the slice %s..%s' % (ast.unparse(st), first, last))
+                found[ast.unparse(st)] = k
+        for t in texts:
+            if t not in found:
+                raise Unsupported('%s does not contain the statement `%s` before the slice %s..%s' % (fn.name, t, first, last))
+        fnparams = [a.arg for a in fn.args.args]
+        for p_ in (params or []):
+            binders = [k for k, st in enumerate(body[:i]) if stores(st, p_)]
+            if not binders:
+                if p_ not in fnparams:
+                    raise Unsupported('%s, read by the slice %s..%s, is neither a parameter of %s nor bound before it'
+                                      % (p_, first, last, fn.name))
+            elif any(k not in found.values() for k in binders):
+                raise Unsupported('%s, read by the slice %s..%s, is bound before it by a statement that is not listed'
+                                  % (p_, first, last))
+    return sl
+
+
+# option 'inner' of the target being printed: the parameters of the enclosing decorator (callees a body may call as
+# declared oracles) and the vararg of the inner function (see decorator_inner / oracle_stmt)
+CLOSURE_PARAMS = set()
+VARARG = [None]
+KNOWN_BUILTINS = ('getattr', 'setattr', 'hasattr', 'max', 'min', 'len', 'abs', 'sum', 'range', 'enumerate', 'tuple',
+                  'isinstance', 'reversed', 'bool', 'functools')
+
+
+def decorator_inner(tree, outer, inner_name):
+    """Target option 'inner' = name: the target is the function `name` defined inside the module-level decorator
+    `outer` and returned by it, i.e. what a call of the decorated function executes.  Accepted shape only:
+        def outer(p):                      one positional parameter, no decorator
+            [docstring]
+            @functools.wraps(p)            optional; `functools` bound in the module by `import functools` only.
+            def name(a, b, *rest): ...     wraps() copies attributes onto `name` and returns it: calls are unchanged
+            name.attr = p                  any number of these
+            return name
+    so p is bound once, when the decorator is applied, and `name` can only be entered through the returned object.
+    Inside `name`: positional parameters without defaults and an optional vararg (no keyword parameters); p, name and
+    the vararg are never rebound, no nested function / lambda / global / nonlocal, `name` is not used (no recursion).
+    Returns a copy of `name` whose vararg is an ordinary last parameter (its value: the tuple of the extra positional
+    arguments), and records p in CLOSURE_PARAMS and the vararg in VARARG for the printing of the body."""
+    import copy
+    if outer not in tree.body or outer.decorator_list:
+        raise Unsupported('%s is not an undecorated module-level function' % outer.name)
+    a = outer.args
+    if a.vararg or a.kwarg or a.kwonlyargs or a.posonlyargs or a.defaults or len(a.args) != 1:
+        raise Unsupported('signature of the decorator %s' % outer.name)
+    p = a.args[0].arg
+    body = list(outer.body)
+    if body and isinstance(body[0], ast.Expr) and isinstance(body[0].value, ast.Constant) \
+            and isinstance(body[0].value.value, str):
+        body = body[1:]
+    if len(body) < 2 or not isinstance(body[0], ast.FunctionDef) or body[0].name != inner_name:
+        raise Unsupported('%s does not start with the definition of %s' % (outer.name, inner_name))
+    inner = body[0]
+    if p in KNOWN_BUILTINS or inner_name in KNOWN_BUILTINS or p == inner_name:
+        raise Unsupported('names of the decorator %s' % outer.name)
+    for s in body[1:-1]:
+        if not (isinstance(s, ast.Assign) and len(s.targets) == 1 and isinstance(s.targets[0], ast.Attribute)
+                and isinstance(s.targets[0].value, ast.Name) and s.targets[0].value.id == inner_name
+                and isinstance(s.value, ast.Name) and s.value.id == p):
+            raise Unsupported('statement of the decorator %s: %s' % (outer.name, ast.unparse(s)[:80]))
+    if not (isinstance(body[-1], ast.Return) and isinstance(body[-1].value, ast.Name) and body[-1].value.id == inner_name):
+        raise Unsupported('%s does not end with `return %s`' % (outer.name, inner_name))
+    if inner.decorator_list:
+        if len(inner.decorator_list) != 1 or ast.unparse(inner.decorator_list[0]) != 'functools.wraps(%s)' % p:
+            raise Unsupported('decorator of %s.%s' % (outer.name, inner_name))
+        binds = 0
+        for n in ast.walk(tree):
+            if isinstance(n, ast.alias) and ((n.asname or n.name).split('.')[0] == 'functools' or n.name == '*'):
+                binds += 1
+            if (isinstance(n, ast.Name) and n.id == 'functools' and not isinstance(n.ctx, ast.Load)) \
+                    or (isinstance(n, ast.arg) and n.arg == 'functools') \
+                    or (isinstance(n, (ast.FunctionDef, ast.AsyncFunctionDef, ast.ClassDef)) and n.name == 'functools') \
+                    or (isinstance(n, (ast.Global, ast.Nonlocal)) and 'functools' in n.names) \
+                    or (isinstance(n, ast.ExceptHandler) and n.name == 'functools'):
+                binds += 2
+        if binds != 1 or not any(isinstance(n, ast.Import) and any(
+                x.name == 'functools' and x.asname is None for x in n.names) for n in tree.body):
+            raise Unsupported('functools is not bound by a single module-level `import functools`')
+    ia = inner.args
+    if ia.kwarg or ia.kwonlyargs or ia.posonlyargs or ia.defaults or ia.kw_defaults:
+        raise Unsupported('signature of %s.%s' % (outer.name, inner_name))
+    names = [x.arg for x in ia.args] + ([ia.vararg.arg] if ia.vararg else [])
+    if len(set(names)) != len(names) or p in names or inner_name in names:
+        raise Unsupported('parameters of %s.%s' % (outer.name, inner_name))
+    fixed = {p, inner_name} | ({ia.vararg.arg} if ia.vararg else set())
+    for s in inner.body:
+        for n in ast.walk(s):
+            if isinstance(n, (ast.FunctionDef, ast.AsyncFunctionDef, ast.ClassDef, ast.Lambda, ast.Global, ast.Nonlocal,
+                              ast.Delete, ast.NamedExpr, ast.Yield, ast.YieldFrom, ast.Await, ast.Try, ast.With,
+                              ast.Import, ast.ImportFrom)):
+                raise Unsupported('%s inside %s.%s' % (type(n).__name__, outer.name, inner_name))
+            if isinstance(n, ast.Name) and n.id in fixed and not isinstance(n.ctx, ast.Load):
+                raise Unsupported('%s is rebound inside %s.%s' % (n.id, outer.name, inner_name))
+            if isinstance(n, ast.Name) and n.id == inner_name:
+                raise Unsupported('%s uses its own name' % inner_name)
+            if isinstance(n, ast.comprehension) and any(
+                    isinstance(x, ast.Name) and x.id in fixed for x in ast.walk(n.target)):
+                raise Unsupported('%s is rebound by a comprehension' % sorted(fixed))
+    fn = copy.deepcopy(inner)
+    fn.decorator_list = []
+    if ia.vararg:
+        fn.args.args = fn.args.args + [ast.arg(arg=ia.vararg.arg)]
+        fn.args.vararg = None
+    ast.fix_missing_locations(fn)
+    CLOSURE_PARAMS.add(p)
+    VARARG[0] = ia.vararg.arg if ia.vararg else None
+    return fn
+
+
+def slice_loop_body(fn, until, then=(), returns=None, start=None, before=(), init=()):
+    """The statements of the body of the only top-level `for` loop of fn, from the first one through the (unique)
+    top-level statement of that body whose text (ast.unparse) is `until` (or, `until` = '<text', the one right before the
+    statement whose first line is `text`; `start` = '>text': the one right after the statement `text`).  The free variables of these statements are
+    the `params` of the target: values at the start of an iteration.  Checked: no nested function / lambda / global /
+    del of a name in the function; a name BOUND by the slice is bound nowhere else in the loop (so what the rest of the
+    iteration reads under it is what the slice computed); a name whose list the slice MUTATES (x.append / x.pop) does
+    not occur in the rest of the loop at all; `then`: expression texts that must occur in the loop after the slice
+    (the consumers of the computed values: a change of what is handed on is refused rather than missed); `returns`:
+    the text of the last statement of the function.  `start`: the text of the (unique) top-level statement of the loop
+    body at which the slice starts instead of the first one (the statements of the body before it bind free variables
+    of the slice).  A name x whose entry x['k'] the slice assigns (a dictionary: the variable is updated, as for
+    attributes) may be used by the rest of the iteration, but the statements after the slice neither rebind x nor
+    assign / delete its entry 'k' again."""
+    loops = [x for x in fn.body if isinstance(x, ast.For)]
+    if len(loops) != 1:
+        raise Unsupported('%d for loops at the top level of %s' % (len(loops), fn.name))
+    loop = loops[0]
+    if loop.orelse:
+        raise Unsupported('else clause of the loop of %s' % fn.name)
+    if until.startswith('<'):
+        # '<text': the statement right before the top-level statement of the body whose first line (as unparsed) is `text`
+        js = [k - 1 for k, s in enumerate(loop.body) if k >= 1 and ast.unparse(s).split('\n')[0] == until[1:]]
+    else:
+        want = ast.unparse(ast.parse(until).body[0])
+        js = [k for k, s in enumerate(loop.body) if ast.unparse(s) == want]
+    if len(js) != 1:
+        raise Unsupported('%d statements `%s` at the top level of the loop of %s' % (len(js), until, fn.name))
+    i0 = 0
+    if start is not None:
+        if start.startswith('>'):
+            # '>text': the statement right after the top-level statement of the body whose text is `text`
+            want0 = ast.unparse(ast.parse(start[1:]).body[0])
+            is_ = [k + 1 for k, s in enumerate(loop.body) if ast.unparse(s) == want0]
+        else:
+            want0 = ast.unparse(ast.parse(start).body[0])
+            is_ = [k for k, s in enumerate(loop.body) if ast.unparse(s) == want0]
+        if len(is_) != 1 or is_[0] > js[0]:
+            raise Unsupported('%d statements `%s` at the top level of the loop of %s' % (len(is_), start, fn.name))
+        i0 = is_[0]
+    sl = loop.body[i0:js[0] + 1]
+    # `init`: texts of the top-level statements of the function before the loop (docstring aside), in this order
+    if init and [ast.unparse(x) for x in fn.body[:fn.body.index(loop)]
+                 if not (isinstance(x, ast.Expr) and isinstance(x.value, ast.Constant))] != [
+            ast.unparse(ast.parse(t).body[0]) for t in init]:
+        raise Unsupported('the statements of %s before its loop are not %s' % (fn.name, list(init)))
+    # `before`: texts of statements that must occur, in this order, right before the start of the slice
+    if [ast.unparse(x) for x in loop.body[max(0, i0 - len(before)):i0]] != [
+            ast.unparse(ast.parse(t).body[0]) for t in before]:
+        raise Unsupported('the statements before the slice of %s are not %s' % (fn.name, list(before)))
+    # entries x['k'] assigned by the slice: not assigned again after it, x not rebound after it
+    entries = set()
+    for s in sl:
+        for n in ast.walk(s):
+            if isinstance(n, ast.Subscript) and not isinstance(n.ctx, ast.Load):
+                if not (isinstance(n.value, ast.Name) and isinstance(n.slice, ast.Constant)
+                        and isinstance(n.slice.value, str)):
+                    raise Unsupported('subscript target %s in the slice of %s' % (ast.unparse(n)[:60], fn.name))
+                entries.add((n.value.id, n.slice.value))
+    for st in loop.body[js[0] + 1:]:
+        for n in ast.walk(st):
+            if isinstance(n, ast.Name) and not isinstance(n.ctx, ast.Load) and n.id in {x for x, _ in entries}:
+                raise Unsupported('%s, whose entry the slice of %s assigns, is rebound after it' % (n.id, fn.name))
+            if isinstance(n, ast.Subscript) and not isinstance(n.ctx, ast.Load) and isinstance(n.value, ast.Name) \
+                    and n.value.id in {x for x, _ in entries} and not (
+                        isinstance(n.slice, ast.Constant) and isinstance(n.slice.value, str)
+                        and (n.value.id, n.slice.value) not in entries):
+                raise Unsupported('the entry %s, assigned by the slice of %s, is assigned again after it'
+                                  % (ast.unparse(n)[:60], fn.name))
+            if isinstance(n, ast.Call) and isinstance(n.func, ast.Attribute) and isinstance(n.func.value, ast.Name) \
+                    and n.func.value.id in {x for x, _ in entries} \
+                    and n.func.attr in ('update', 'pop', 'popitem', 'clear', 'setdefault', '__setitem__', '__delitem__'):
+                raise Unsupported('%s.%s() after the slice of %s, which assigns an entry of it'
+                                  % (n.func.value.id, n.func.attr, fn.name))
+    for n in ast.walk(fn):
+        if isinstance(n, (ast.FunctionDef, ast.AsyncFunctionDef, ast.Lambda, ast.Global, ast.Nonlocal, ast.NamedExpr,
+                          ast.Yield, ast.YieldFrom, ast.Try, ast.With)) and n is not fn:
+            raise Unsupported('%s inside %s' % (type(n).__name__, fn.name))
+        if isinstance(n, ast.Delete) and any(isinstance(t, ast.Name) for t in n.targets):
+            raise Unsupported('del of a name inside %s' % fn.name)
+    inside = set(id(n) for s in sl for n in ast.walk(s))
+    bound = set(n.id for s in sl for n in ast.walk(s) if isinstance(n, ast.Name) and not isinstance(n.ctx, ast.Load))
+    mutated = set()
+    for s in sl:
+        for n in ast.walk(s):
+            if isinstance(n, ast.Call) and isinstance(n.func, ast.Attribute) and isinstance(n.func.value, ast.Name):
+                mutated.add(n.func.value.id)
+    if bound & mutated:
+        raise Unsupported('%s is both rebound and mutated by the slice of %s' % (sorted(bound & mutated), fn.name))
+    for n in ast.walk(loop):
+        if id(n) in inside:
+            continue
+        if isinstance(n, ast.Name) and n.id in bound and not isinstance(n.ctx, ast.Load):
+            raise Unsupported('%s, bound by the slice of %s, is bound again in the loop' % (n.id, fn.name))
+        if isinstance(n, ast.Name) and n.id in mutated:
+            raise Unsupported('%s, mutated by the slice of %s, is used in the rest of the loop' % (n.id, fn.name))
+    after = set()
+    for st in loop.body[js[0] + 1:]:
+        for n in ast.walk(st):
+            if isinstance(n, ast.expr):
+                after.add(ast.unparse(n))
+    for text in then:
+        if ast.unparse(ast.parse(text, mode='eval').body) not in after:
+            raise Unsupported('the loop of %s does not contain `%s` after the slice' % (fn.name, text))
+    if returns is not None and ast.unparse(fn.body[-1]) != ast.unparse(ast.parse(returns).body[0]):
+        raise Unsupported('%s does not end with `%s`' % (fn.name, returns))
+    return list(sl)
+
+
+def is_pop_call(n):
+    return isinstance(n, ast.Call) and isinstance(n.func, ast.Attribute) and n.func.attr == 'pop' \
+        and isinstance(n.func.value, ast.Name) and not n.args and not n.keywords
+
+
+def hoist_pops(fn, stmts, params):
+    """The call `x.pop()` (x a plain name, no argument) inside an expression.  Expressions have no effect on the
+    environment in Py.v, so the statement  `t = E` / `t op= E`  (t a plain name other than x) whose E contains one such
+    call is printed as the three statements
+        %pop = x[-1]; x = x[:-1]; t = E[x.pop() := %pop]          ("%pop" is not a Python name)
+    x[-1] on an empty list is IndexError as pop() is; otherwise the last element is taken and dropped.  The same
+    meaning for every input under the conditions checked here (anything else is refused):
+      * in E the call is reached from the root through operands of + - * only, and wherever the way goes into a RIGHT
+        operand the left one is a number literal or a name that is certainly bound at this point (a parameter of the translated
+        statements, or the target of a plain `name = ..` statement earlier in this block or in an enclosing block, no
+        `del name` anywhere): Python evaluates exactly these before the call, they have no effect and cannot raise,
+        and no operation is completed before the call - so taking the element first changes neither the result nor
+        which error is raised; for `t op= E` the read of t comes first too: t must be certainly bound as well;
+      * x occurs nowhere else in the statement, E contains no other call;
+      * x is a parameter of the translated statements that they never rebind, and each of its reads is one that cannot
+        give the list object a second name (the receiver of .append(..) / .pop(), the argument of len / sum, a
+        subscripted x[..], the iterable of a for): Python mutates the object in place, here the variable is rebound
+        (lists are values, as for x.append(e)); the final value of the variable x is the final state of the caller's
+        list.  A receiver that is not a list is an error in both (AttributeError in Python, TypeError here)."""
+    import copy
+    if not any(is_pop_call(n) for s in stmts for n in ast.walk(s)):
+        return stmts
+    for n in ast.walk(fn):
+        if isinstance(n, (ast.FunctionDef, ast.AsyncFunctionDef, ast.Lambda, ast.Global, ast.Nonlocal, ast.NamedExpr)) \
+                and n is not fn:
+            raise Unsupported('%s inside %s, which pops from a list' % (type(n).__name__, fn.name))
+        if isinstance(n, ast.Delete) and any(isinstance(t, ast.Name) for t in n.targets):
+            raise Unsupported('del of a name inside %s, which pops from a list' % fn.name)
+    popped = set(n.func.value.id for s in stmts for n in ast.walk(s) if is_pop_call(n))
+    safe = set()
+    for s in stmts:
+        for n in ast.walk(s):
+            if isinstance(n, ast.Name) and n.id in popped and not isinstance(n.ctx, ast.Load):
+                raise Unsupported('%s, from which an element is popped, is rebound' % n.id)
+            if isinstance(n, ast.Call) and isinstance(n.func, ast.Attribute) and n.func.attr in ('append', 'pop'):
+                safe.add(id(n.func.value))
+            if isinstance(n, ast.Call) and isinstance(n.func, ast.Name) and n.func.id in ('len', 'sum') \
+                    and len(n.args) == 1 and not n.keywords:
+                safe.add(id(n.args[0]))
+            if isinstance(n, ast.Subscript) and isinstance(n.ctx, ast.Load):
+                safe.add(id(n.value))
+            if isinstance(n, ast.For):
+                safe.add(id(n.iter))
+    for s in stmts:
+        for n in ast.walk(s):
+            if isinstance(n, ast.Name) and n.id in popped and id(n) not in safe:
+                raise Unsupported('%s, from which an element is popped, is read in a way that may alias it' % n.id)
+    for x in popped:
+        if x not in params:
+            raise Unsupported('%s, from which an element is popped, is not a parameter of the translated statements' % x)
+
+    def leaf(e, bound):
+        return (isinstance(e, ast.Constant) and type(e.value) in (int, float)) \
+            or (isinstance(e, ast.Name) and isinstance(e.ctx, ast.Load) and e.id in bound)
+
+    def rewrite(s, bound):
+        if isinstance(s, ast.Assign) and len(s.targets) == 1 and isinstance(s.targets[0], ast.Name):
+            t = s.targets[0].id
+        elif isinstance(s, ast.AugAssign) and isinstance(s.target, ast.Name) and type(s.op) in BIN:
+            t = s.target.id
+            if t not in bound:
+                raise Unsupported('%s %s= .. x.pop() ..: %s may be unbound' % (t, BIN[type(s.op)], t))
+        else:
+            raise Unsupported('x.pop() in the statement %s' % ast.unparse(s)[:80])
+        calls = [n for n in ast.walk(s.value) if isinstance(n, ast.Call)]
+        if len(calls) != 1:
+            raise Unsupported('x.pop() next to another call in %s' % ast.unparse(s)[:80])
+        x = calls[0].func.value.id
+        if t == x or sum(1 for n in ast.walk(s) if isinstance(n, ast.Name) and n.id == x) != 1:
+            raise Unsupported('%s occurs twice in %s' % (x, ast.unparse(s)[:80]))
+        new = copy.deepcopy(s)
+        e, parent = new.value, None
+        side = None
+        while not is_pop_call(e):
+            if isinstance(e, ast.BinOp) and isinstance(e.op, (ast.Add, ast.Sub, ast.Mult)) \
+                    and any(is_pop_call(n) for n in ast.walk(e.left)):
+                # the left operand is evaluated first: nothing of this operation comes before the call
+                parent, e, side = e, e.left, 'left'
+                continue
+            if not (isinstance(e, ast.BinOp) and isinstance(e.op, (ast.Add, ast.Sub, ast.Mult)) and leaf(e.left, bound)):
+                raise Unsupported('x.pop() is not reached through right operands of + - * after literals / bound names '
+                                  'in %s' % ast.unparse(s)[:80])
+            parent, e, side = e, e.right, 'right'
+        by = ast.Name(id='%pop', ctx=ast.Load())
+        if parent is None:
+            new.value = by
+        elif side == 'left':
+            parent.left = by
+        else:
+            parent.right = by
+        take = ast.Assign(targets=[ast.Name(id='%pop', ctx=ast.Store())], value=ast.Subscript(
+            value=ast.Name(id=x, ctx=ast.Load()), slice=ast.Constant(value=-1), ctx=ast.Load()))
+        drop = ast.Assign(targets=[ast.Name(id=x, ctx=ast.Store())], value=ast.Subscript(
+            value=ast.Name(id=x, ctx=ast.Load()), slice=ast.Slice(lower=None, upper=ast.Constant(value=-1), step=None),
+            ctx=ast.Load()))
+        return [ast.copy_location(take, s), ast.copy_location(drop, s), new]
+
+    def has_pop(e):
+        return e is not None and any(is_pop_call(n) for n in ast.walk(e))
+
+    def walk_block(block_, bound):
+        bound, out = set(bound), []
+        for s in block_:
+            if not has_pop(s):
+                out.append(s)
+            elif isinstance(s, (ast.Assign, ast.AugAssign)):
+                out.extend(rewrite(s, bound))
+            elif isinstance(s, ast.If) and not has_pop(s.test):
+                s2 = copy.copy(s)
+                s2.body, s2.orelse = walk_block(s.body, bound), walk_block(s.orelse, bound)
+                out.append(s2)
+            elif isinstance(s, ast.While) and not has_pop(s.test) and not s.orelse:
+                s2 = copy.copy(s)
+                s2.body = walk_block(s.body, bound)
+                out.append(s2)
+            else:
+                raise Unsupported('x.pop() in the statement %s' % ast.unparse(s).split('\n')[0][:80])
+            if isinstance(s, ast.Assign) and all(isinstance(t, ast.Name) for t in s.targets):
+                bound.update(t.id for t in s.targets)
+        return out
+    return walk_block(list(stmts), set(params))
+
+
 def translate_function(fn, name, slice_from=None, params=None, after_unpack=None, tree=None, in_for=None):
     """fn: ast.FunctionDef.  slice_from: name of the variable whose first assignment starts the translated
     slice (the statements before it are *not* translated; `params` are then the free variables).
@@ -1030,6 +2176,15 @@ def translate_function(fn, name, slice_from=None, params=None, after_unpack=None
     # the option 'opaque' of the target with this Coq name (see stmt_or_unsupported); off for every other target
     OPAQUE[0] = any(c == name and x.get('opaque') for _, ts in TARGETS.values() for _, _, c, x in ts)
     STR_INDEX[0] = any(c == name and x.get('str_index') for _, ts in TARGETS.values() for _, _, c, x in ts)
+    ISINSTANCE[0] = any(c == name and x.get('isinstance') for _, ts in TARGETS.values() for _, _, c, x in ts)
+    SEQ_OPS[0] = any(c == name and x.get('seq_ops') for _, ts in TARGETS.values() for _, _, c, x in ts)
+    FOR_BREAK[0] = any(c == name and x.get('for_break') for _, ts in TARGETS.values() for _, _, c, x in ts)
+    UNPACK_GEN[0] = any(c == name and x.get('unpack_gen') for _, ts in TARGETS.values() for _, _, c, x in ts)
+    OBJ_METHODS.clear()
+    for _, ts in TARGETS.values():
+        for _, _, c, x in ts:
+            if c == name and x.get('obj_methods'):
+                OBJ_METHODS.update(x['obj_methods'])
     body = list(fn.body)
     if in_for is not None:
         body = slice_in_for(fn, *in_for)
@@ -1075,6 +2230,48 @@ def translate_function(fn, name, slice_from=None, params=None, after_unpack=None
         body = ifs[:1]
     elif isinstance(slice_from, tuple) and slice_from[0] == '<branch>':
         body = select_branch(fn, slice_from[1], slice_from[2])
+    elif isinstance(slice_from, tuple) and slice_from[0] == '<after-chain>':
+        # the statements that follow the (unique) top-level chain `if var == 'a': .. elif ..`, to the end of fn
+        body = body[chain_position(fn, slice_from[1]) + 1:]
+        if not body:
+            raise Unsupported('nothing after the chain on %s in %s' % (slice_from[1], fn.name))
+    elif isinstance(slice_from, tuple) and slice_from[0] == '<from-to>':
+        # from the first top-level statement inside which the name slice_from[1] is a target, up to (not including)
+        # the first later top-level statement inside which the name slice_from[2] is a target
+        def binds_(s_, nm_):
+            return any(isinstance(x, ast.Name) and x.id == nm_ and not isinstance(x.ctx, ast.Load) for x in ast.walk(s_))
+        js_ = [j for j, s in enumerate(body) if binds_(s, slice_from[1])]
+        if not js_:
+            raise Unsupported('no statement of %s binds %s' % (fn.name, slice_from[1]))
+        ks_ = [j for j, s in enumerate(body) if j > js_[0] and binds_(s, slice_from[2])]
+        if not ks_:
+            raise Unsupported('no statement of %s after the one binding %s binds %s' % (fn.name, slice_from[1], slice_from[2]))
+        body = body[js_[0]:ks_[0]]
+    elif isinstance(slice_from, tuple) and slice_from[0] == '<until-chain>':
+        # from the first top-level statement inside which the name slice_from[2] is a target, up to (not including)
+        # the chain on the variable slice_from[1]
+        i_ = chain_position(fn, slice_from[1])
+        js_ = [j for j, s in enumerate(body[:i_]) if any(
+            isinstance(x, ast.Name) and x.id == slice_from[2] and not isinstance(x.ctx, ast.Load) for x in ast.walk(s))]
+        if not js_:
+            raise Unsupported('no statement of %s before the chain on %s binds %s' % (fn.name, slice_from[1], slice_from[2]))
+        body = body[js_[0]:i_]
+    elif isinstance(slice_from, tuple) and slice_from[0] == '<loop-body>':
+        # ('<loop-body>', until, then, returns[, start[, before[, init]]]): statements of the body of the only top-level for loop, from the
+        # first one (or `start`) through `until` (slice_loop_body)
+        body = slice_loop_body(fn, slice_from[1], slice_from[2], slice_from[3],
+                               slice_from[4] if len(slice_from) > 4 else None,
+                               slice_from[5] if len(slice_from) > 5 else (),
+                               slice_from[6] if len(slice_from) > 6 else ())
+    elif isinstance(slice_from, tuple) and slice_from[0] == '<span>':
+        body = slice_span(fn, slice_from[1], slice_from[2], slice_from[3], params)
+    elif slice_from == '<last-if>':
+        # the last `if` statement at the top level of the function (test included) and the statements after it, to the
+        # end of the function; the statements before it are not translated
+        ifs = [k for k, x in enumerate(body) if isinstance(x, ast.If)]
+        if not ifs:
+            raise Unsupported('no if statement at the top level of %s' % fn.name)
+        body = body[ifs[-1]:]
     elif slice_from is not None and slice_from.startswith('<binds:'):
         # from the first top-level statement (of any kind: an `if` whose branches assign it, a loop, ...) inside which
         # the name is a target, to the end of the function
@@ -1094,6 +2291,8 @@ def translate_function(fn, name, slice_from=None, params=None, after_unpack=None
         else:
             raise Unsupported('slice start %s not found in %s' % (slice_from, fn.name))
     body = bound_method_aliases(fn, body)
+    # `x.pop()` inside an expression: see hoist_pops (the statements are returned unchanged when there is none)
+    body = hoist_pops(fn, body, params if params is not None else [a_.arg for a_ in fn.args.args])
     gens = {}
     for s in body:
         if isinstance(s, ast.Assign) and len(s.targets) == 1 and isinstance(s.targets[0], ast.Name) \
@@ -1479,6 +2678,13 @@ HEADER = ('(* GENERATED by tools/py2coq.py from %s -- do not edit *)\n'
           'From Coq Require Import QArith List String.\nRequire Import WV.base.Py.\n'
           'Import ListNotations.\nOpen Scope string_scope.\n\n')
 
+# option 'obj_methods' of the targets of GenStream (see OBJ_METHODS): the methods of pydyf.Stream that the methods of
+# weasyprint.pdf.stream.Stream call through super(), with their parameters, and the pydyf constructor they use
+STREAM_METHODS = {
+    'super': {'push_state': [], 'pop_state': [], 'begin_text': [], 'end_text': [], 'end_marked_content': [],
+              'set_font_size': ['font', 'size']},
+}
+
 # file -> list of (kind, python name, coq name, extra)
 TARGETS = {
     'GenBlock': ('weasyprint/layout/block.py', [
@@ -1610,6 +2816,27 @@ TARGETS = {
     'GenAnchors': ('weasyprint/anchors.py', [
         # `transform_point = matrix.transform_point` : see bound_method_aliases
         ('fun', 'rectangle_aabb', 'rectangle_aabb', {}),
+        # make_page_bookmark_tree, per bookmark: the level stack (skipped_levels.append / the `while ..: .. pop()` loop
+        # / the clamp), previous_level, depth and the two asserts - the head of the loop body; the rest of the
+        # iteration (children lists aliased inside last_by_depth) is outside the value domain of Py.v and must still
+        # consume depth as listed; `x.pop()` inside an expression: see hoist_pops
+        ('fun', 'make_page_bookmark_tree', 'bookmark_stack_step', {
+            'slice_from': ('<loop-body>', '<children = []', [
+                'last_by_depth[depth - 1].append(subtree)', 'last_by_depth[depth:]',
+                'last_by_depth.append(children)'], 'return previous_level'),
+            'params': ['level', 'previous_level', 'skipped_levels']}),
+    ]),
+    'GenPdfAnchors': ('weasyprint/pdf/anchors.py', [
+        # add_outlines, per bookmark: the Count bookkeeping after the recursive call (Count of the item = the count of
+        # its children, negated when the item is closed; an open item adds its children's count to the count of the
+        # list it is in).  The recursion, the pydyf objects and the Prev / Next / First / Last / Parent entries are
+        # outside the slice; what consumes `count` and the item must still be there as listed
+        ('fun', 'add_outlines', 'outline_count_step', {
+            'slice_from': ('<loop-body>', '<if outlines:', ['outlines.append(outline)'], 'return outlines, count',
+                           '>children_outlines, children_count = add_outlines(pdf, children, parent=outline)',
+                           ['children_outlines, children_count = add_outlines(pdf, children, parent=outline)'],
+                           ['count = len(bookmarks)', 'outlines = []']),
+            'params': ['outline', 'children_count', 'state', 'count']}),
     ]),
     'GenMatrix': ('weasyprint/matrix.py', [
         # Matrix(a, b, c, d, e, f, matrix): the list that Matrix.__init__ hands to list.__init__ (see translate_ctor)
@@ -1644,6 +2871,29 @@ TARGETS = {
             'slice_from': ('<branch>', 'system', 'alphabetic'), 'params': ['self', 'counter', 'counter_value']}),
         ('fun', 'CounterStyle.render_value', 'rv_numeric', {
             'slice_from': ('<branch>', 'system', 'numeric'), 'params': ['self', 'counter', 'counter_value']}),
+        # the rest of render_value after the `while extends:` loop.  Option 'seq_ops': `+ * len` on strings / lists are
+        # the primitives PSeqAdd / PSeqMul / PSeqLen; 'for_break': a for loop with break / else (see for_with_break);
+        # 'unpack_gen': a, b = (generator).  rv_neg = the head of step 3, from `initial = None` up to the chain on
+        # `system` (is_negative, the negative symbols, use_negative, abs); rv_finish = the statements after the chain
+        # (steps 4 to 6); rv_range = step 2 (the range test, a for .. else loop under 'for_break'; the module-level name
+        # `inf` is an input), slice option ('<from-to>', 'counter_ranges', 'initial')
+        ('fun', 'CounterStyle.render_value', 'rv_symbolic', {
+            'slice_from': ('<branch>', 'system', 'symbolic'), 'params': ['self', 'counter', 'counter_value'],
+            'seq_ops': True}),
+        ('fun', 'CounterStyle.render_value', 'rv_additive', {
+            'slice_from': ('<branch>', 'system', 'additive'),
+            'params': ['self', 'counter', 'counter_value', 'initial', 'is_negative', 'previous_types'],
+            'seq_ops': True, 'for_break': True}),
+        ('fun', 'CounterStyle.render_value', 'rv_finish', {
+            'slice_from': ('<after-chain>', 'system'),
+            'params': ['counter', 'initial', 'is_negative', 'use_negative', 'negative_prefix', 'negative_suffix'],
+            'seq_ops': True}),
+        ('fun', 'CounterStyle.render_value', 'rv_range', {
+            'slice_from': ('<from-to>', 'counter_ranges', 'initial'),
+            'params': ['self', 'counter', 'counter_value', 'system', 'previous_types', 'inf'], 'for_break': True}),
+        ('fun', 'CounterStyle.render_value', 'rv_neg', {
+            'slice_from': ('<until-chain>', 'system', 'initial'),
+            'params': ['counter', 'counter_value', 'system'], 'unpack_gen': True}),
     ]),
     'GenTable': ('weasyprint/layout/table.py', [
         # fixed_table_layout from the choice of the horizontal border spacing on: the pass over the cells of the
@@ -1665,6 +2915,29 @@ TARGETS = {
         ('fun', 'break_before_after', 'break_before_after', {'computer': ['break-before', 'break-after']}),
         # position is a keyword (a str) or the pair ('running()', name): `position[0]` is the builtin "%getitem"
         ('fun', 'compute_float', 'compute_float', {'computer': ['float'], 'str_index': True}),
+        # C06: the length computer, whole (option 'imports': ZERO_PIXELS / Dimension of css/properties.py and the
+        # table LENGTHS_TO_PIXELS of css/utils.py, see IMPORTED; character_ratio an oracle)
+        ('fun', 'length', 'length', {
+            'computer': ['top', 'right', 'left', 'bottom', 'margin-top', 'margin-right', 'margin-bottom', 'margin-left',
+                         'height', 'width', 'min-width', 'min-height', 'max-width', 'max-height', 'padding-top',
+                         'padding-right', 'padding-bottom', 'padding-left', 'text-indent', 'hyphenate-limit-zone',
+                         'flex-basis', 'text-underline-offset', 'text-decoration-thickness'],
+            'imports': {'ZERO_PIXELS': ('weasyprint/css/properties.py', 'const'),
+                        'Dimension': ('weasyprint/css/properties.py', 'namedtuple'),
+                        'LENGTHS_TO_PIXELS': ('weasyprint/css/utils.py', 'qtable')}}),
+        ('fun', 'pixel_length', 'pixel_length', {'computer': ['letter-spacing']}),
+        ('fun', 'length_pixels_only', 'length_pixels_only', {'computer': ['column-width', 'outline-offset']}),
+        # the tuple computers: tuple(length(..) for value in values) (printed as the list comprehension)
+        ('fun', 'length_or_percentage_tuple', 'length_or_percentage_tuple', {'computer': ['transform-origin']}),
+        ('fun', 'length_tuple', 'length_tuple', {'computer': ['border-spacing', 'size', 'clip']}),
+        ('fun', 'line_height', 'line_height', {'computer': ['line-height']}),
+        # font-size, whole: the table FONT_SIZE_KEYWORDS of this module (a comprehension over INITIAL_VALUES['font_size']
+        # of css/properties.py), the two for / else searches of larger / smaller (option 'for_break': no break here,
+        # the else clause runs when the loop ends), keyword_values[::-1], its call of length()
+        ('fun', 'font_size', 'font_size', {
+            'computer': ['font-size'], 'for_break': True,
+            'imports': {'FONT_SIZE_KEYWORDS': ('weasyprint/css/computed_values.py', 'qtable'),
+                        'INITIAL_VALUES': ('weasyprint/css/properties.py', 'entries')}}),
     ]),
     'GenBuild': ('weasyprint/formatting_structure/build.py', [
         # BOX_TYPE_FROM_DISPLAY: (outside, inside) / (table part,) -> the name of the class of boxes.py
@@ -1692,15 +2965,96 @@ TARGETS = {
         # replacedbox_layout translates as it is (its `assert object_fit == 'none', object_fit` is accepted), but its
         # equality with model rb_layout is not proved yet: not a target, so that a refusal cannot raise a false alarm
     ]),
+    'GenMinMax': ('weasyprint/layout/min_max.py', [
+        # the function that a call of a @handle_min_max_width / @handle_min_max_height function executes (option
+        # 'inner': the `wrapper` defined in and returned by the decorator).  The decorated function is the parameter
+        # `function` of the decorator: `result = function(box, *args)` is printed as the oracle statement
+        # result, box, args = function(box, args)  (it mutates box, and may mutate what args holds);
+        # getattr(box, 'position_x', None) is the builtin "%getattr"
+        ('fun', 'handle_min_max_width', 'min_max_width_wrapper', {
+            'inner': 'wrapper', 'call_as': 'handle_min_max_width.wrapper',
+            'oracle_stmts': {'function': (['box', '*args'], ['box', '*args'])}}),
+        ('fun', 'handle_min_max_height', 'min_max_height_wrapper', {
+            'inner': 'wrapper', 'call_as': 'handle_min_max_height.wrapper',
+            'oracle_stmts': {'function': (['box', '*args'], ['box', '*args'])}}),
+    ]),
     'GenPageCounters': ('weasyprint/layout/page.py', [
         # the whole function: the loop over the three property names is unrolled and `style[propname]` gets a constant
         # key (option 'consts' with no parameter: see specialise() / cp_block()); `continue` folded into if / else
         ('fun', '_standardize_page_based_counters', 'standardize_page_based_counters', {'consts': {}}),
     ]),
+    'GenPageSide': ('weasyprint/layout/page.py', [
+        # remake_page (C04): from the `if` that binds next_page_side (the side a forced break asks for) through
+        # `side = ...`: next_page_side, blank, name, side.  The values come from page_maker[index] and go to PageType /
+        # make_page (checked by slice_span: 'before' / 'keep' / 'then'); bool() is `not not`
+        ('fun', 'remake_page', 'page_side', {
+            'slice_from': ('<span>', 'next_page_side', 'side', {
+                'keep': ['next_page_side', 'blank', 'name', 'side'],
+                'before': ['page_maker = context.page_maker',
+                           'resume_at, next_page, right_page, page_state, _ = page_maker[index]'],
+                'then': ['PageType(side, blank, name, index, groups)', 'page_number = index + 1',
+                         'make_page(context, root_box, page_type, resume_at, page_number, page_state)']}),
+            'params': ['next_page', 'right_page', 'resume_at', 'context', 'root_box']}),
+        # remake_page, after make_page returned: the parity flips and the entry of the next page is stored
+        # (resume_at, next_page as returned by make_page); the dict display of constants is a constant VObj
+        ('fun', 'remake_page', 'page_next', {
+            'slice_from': ('<span>', '=right_page', None, {
+                'before': ['page_maker = context.page_maker',
+                           'resume_at, next_page, right_page, page_state, _ = page_maker[index]',
+                           'page_state = copy.deepcopy(page_state)',
+                           'page, resume_at, next_page = make_page(context, root_box, page_type, resume_at, '
+                           'page_number, page_state)']}),
+            'params': ['index', 'page_maker', 'right_page', 'resume_at', 'next_page', 'page_state', 'page']}),
+        # make_page: what a blank page does with its resume_at (first `if page_type.blank:`: remembered, the root
+        # box loses its children) ...
+        ('fun', 'make_page', 'blank_enter', {
+            'slice_from': ('<span>', 'previous_resume_at', 'previous_resume_at', {
+                'keep': ['previous_resume_at'], 'before': []}),
+            'params': ['page_type', 'resume_at', 'root_box']}),
+        # ... and what it returns (last `if page_type.blank:` and the return statement): the remembered resume_at
+        # and the next_page of its own page_maker entry
+        ('fun', 'make_page', 'blank_return', {
+            'slice_from': '<last-if>',
+            'params': ['page_type', 'previous_resume_at', 'page_maker', 'page_number', 'page', 'resume_at',
+                       'next_page']}),
+    ]),
+    'GenStacking': ('weasyprint/stacking.py', [
+        # StackingContext.__init__ (C17): the three z buckets (`self.x.append(..)` / `self.x.sort(key=lambda c:
+        # c.z_index)` on the lists the constructor itself creates: see fresh_list_attr; the sort is PSortedByAttr of
+        # Py.v) and the z-index normalisation.  'call_as': never the callee of a translated call
+        ('fun', 'StackingContext.__init__', 'stacking_init', {'call_as': 'StackingContext.__init__'}),
+        # _dispatch: which boxes get a stacking context of their own / a "fake" one / go to the floats / stay in the
+        # normal tree with their index in blocks and blocks_and_cells.  The decisions are translated; the recursive
+        # work (StackingContext.from_box, _dispatch_children) and list.insert are outside the subset: option
+        # 'opaque' prints each such statement as a call of "%unsupported" carrying its text.  isinstance(..) is the
+        # builtin "%isinstance" (option 'isinstance'), box.is_floated() an oracle; the module `boxes` and the class
+        # AbsolutePlaceholder are inputs
+        ('fun', '_dispatch', 'stacking_dispatch', {
+            'opaque': True, 'isinstance': True, 'call_as': '_dispatch[decisions]',
+            'params': ['box', 'page', 'child_contexts', 'blocks', 'floats', 'blocks_and_cells',
+                       'boxes', 'AbsolutePlaceholder']}),
+    ]),
     'GenPageSel': ('weasyprint/css/__init__.py', [
         # does an @page selector (side, :blank, :first, name, :nth(an+b [of group])) match a page type; `%` is the
         # builtin "%mod", the loop over page_type.groups has a tuple target and an `if ...: continue`
         ('fun', 'StyleFor._page_type_match', 'page_type_match', {}),
+    ]),
+    'GenStream': ('weasyprint/pdf/stream.py', [
+        # the graphics-state bookkeeping methods of Stream (C16): the attributes of self are the fields of an object
+        # value, `super().m(..)` is the oracle "super.m" that answers the new state of self (pydyf is not in the
+        # repository), self.stream / self._ctm_stack / self.marked are list-valued attributes (option 'obj_methods');
+        # the @property ctm is the method ".ctm"
+        ('props', 'Stream', 'Stream', {}),
+        ('fun', 'Stream.push_state', 'stream_push_state', {'obj_methods': STREAM_METHODS, 'call_as': 'Stream.push_state'}),
+        ('fun', 'Stream.pop_state', 'stream_pop_state', {'obj_methods': STREAM_METHODS, 'call_as': 'Stream.pop_state'}),
+        ('fun', 'Stream.begin_text', 'stream_begin_text', {'obj_methods': STREAM_METHODS, 'call_as': 'Stream.begin_text'}),
+        ('fun', 'Stream.end_text', 'stream_end_text', {'obj_methods': STREAM_METHODS, 'call_as': 'Stream.end_text'}),
+        ('fun', 'Stream.set_font_size', 'stream_set_font_size', {
+            'obj_methods': STREAM_METHODS, 'call_as': 'Stream.set_font_size'}),
+        # begin_marked_content translates too (with 'begin_marked_content': ['tag', 'property_list'] under 'super' and
+        # 'module_calls': {'pydyf.Dictionary': 'dict'}), but its equality with the model is not proved yet: not a target
+        ('fun', 'Stream.end_marked_content', 'stream_end_marked_content', {
+            'obj_methods': STREAM_METHODS, 'call_as': 'Stream.end_marked_content'}),
     ]),
 }
 
@@ -1731,7 +3085,8 @@ def generate(repo, out_dir, only=None):
                     CTORS.add(pyname)
                 except Unsupported:
                     pass
-            if kind != 'fun' or extra.get('slice_from') or extra.get('after_unpack') or extra.get('in_for'):
+            if kind != 'fun' or extra.get('slice_from') or extra.get('after_unpack') or extra.get('in_for') \
+                    or extra.get('inner'):
                 continue
             try:
                 fn0 = find_function(tree0, pyname)
@@ -1769,6 +3124,7 @@ def generate(repo, out_dir, only=None):
                     parts.append('(* UNSUPPORTED %s: %s *)\n' % (pyname, str(exc).replace('*)', '* )')))
         for kind, pyname, coqname, extra in targets:
             TARGET_ORACLE.clear()
+            IMPORTED.clear()
             try:
                 if kind == 'props':
                     # one translated method per getter: ".name" with the single parameter self
@@ -1781,6 +3137,10 @@ def generate(repo, out_dir, only=None):
                         table.append('(%s, (%s_%s_args, %s_%s_body))' % (q('.' + g), coqname, g, coqname, g))
                 elif kind == 'fun':
                     fn = find_function(tree, pyname)
+                    CLOSURE_PARAMS.clear()
+                    VARARG[0] = None
+                    if extra.get('inner'):
+                        fn = decorator_inner(tree, fn, extra['inner'])
                     if extra.get('consts') is not None or extra.get('tests') or extra.get('free'):
                         fn = specialise(fn, tree, extra.get('consts') or {}, extra.get('tests'), extra.get('free'))
                     if extra.get('computer'):
@@ -1792,6 +3152,12 @@ def generate(repo, out_dir, only=None):
                         del BUILTINS_SEEN[:]
                         TARGET_ORACLE.clear()
                         TARGET_ORACLE.update(extra.get('oracle_stmts', {}))
+                        if extra.get('imports'):
+                            IMPORTED.update(resolve_imported(repo, src, tree, extra['imports']))
+                            for n_, (k_, d_) in sorted(IMPORTED.items()):
+                                if k_ == 'namedtuple' and not any(('Definition %s_fields ' % n_) in p_ for p_ in parts):
+                                    parts.append('Definition %s_fields : list string := [%s].\n' % (
+                                        n_, '; '.join(q(f_) for f_ in d_)))
                         parts.append(translate_function(fn, coqname, extra.get('slice_from'), extra.get('params'),
                                                         extra.get('after_unpack'), tree, extra.get('in_for')))
                         for callee in sorted(set(CALLS_SEEN)):
@@ -1857,6 +3223,12 @@ def check_setitem_alias(stmts):
                 and n.func.id in ('len', 'sum', 'enumerate', 'max', 'min') \
                 and len(n.args) == 1 and isinstance(n.args[0], ast.Name):
             safe.add(id(n.args[0]))
+        if isinstance(n, ast.Expr) and isinstance(n.value, ast.Call) and isinstance(n.value.func, ast.Attribute) \
+                and n.value.func.attr in ('append', 'extend') and isinstance(n.value.func.value, ast.Name) \
+                and len(n.value.args) == 1 and not n.value.keywords:
+            # the statement x.append(e) / x.extend(e) (printed as SAppend / SExtend: the variable x is updated): the
+            # receiver is used in place, no second name for the list is created
+            safe.add(id(n.value.func.value))
         if isinstance(n, (ast.For, ast.While)):
             loops.append(n)
     for n in ast.walk(mod):
@@ -1895,6 +3267,8 @@ def check_binding(tree, fn, callee):
             if callee in names or '*' in names:
                 raise Unsupported('%s may be rebound at the module level' % callee)
         return
+    if callee in TARGET_ORACLE and callee in CLOSURE_PARAMS:
+        return  # the parameter of the enclosing decorator (option 'inner': decorator_inner checked its binding)
     if callee in TARGET_ORACLE:
         # a declared oracle of this target: bound by a `from m import f` statement of the function itself (or of the
         # module, below)
